@@ -12,2451 +12,1039 @@ Definition show_fres (r : fres) : string :=
   end.
 Definition check (rs : list rune) : string := digest (show_fres (format_res rs)).
 Definition full (rs : list rune) : string := show_fres (format_res rs).
-Eval vm_compute in ("<<<M1350>>>" ++ check (runes_of_ascii "root packet Header
-{repeat
-zchar[
-10 ]charz `two words`
-    , repeat
-    u8 uint8x
-`" ++ [233]%N ++ runes_of_ascii "`
-    //	t
-    , T@calculatedFrom(
-""{,}"" )
-    `u8 x,` ,
-char[1	] trueish
-    @lengthOf( x_y_z )
-    `crlf
-line` , repeat Pad
-    Foo ,
-    @lengthOf(  roots )repeat asx	,@rightPad
-( '0' ) @leftPad ('0' ) @leftPad('0'	) uint8  x @lengthOf( body) `crlf
-line` ,match body
-    as rootA {[ // " ++ [128512]%N ++ runes_of_ascii " emoji
-0 // " ++ [27880; 37322]%N ++ runes_of_ascii "
-, ""\n""] :
-x_y_z
-,
-    10
-    : packetx , 1 : BodyLength , """ ++ [233]%N ++ runes_of_ascii "t" ++ [233]%N ++ runes_of_ascii """ :zchar 3  :
-// `tick` ""quote"" 'q'
-// packet A { u8 x, }
-As
-""" ++ [233]%N ++ runes_of_ascii "t" ++ [233]%N ++ runes_of_ascii """ : asx	, },
-    match packetx as	lengthOf { """ ++ [233]%N ++ runes_of_ascii "t" ++ [233]%N ++ runes_of_ascii """ :
-    roots , 42 :
-lengthOf [ ""a\""b"" ] :asx // trailing space 
-,},
-}packet calculatedFrom {@calculatedFrom( ""abc"" ) repeat
-u64
-//x
-// @lengthOf(
-stringy , @calculatedFrom(
-""" ++ [233]%N ++ runes_of_ascii "t" ++ [233]%N ++ runes_of_ascii """
-) i32 i8i8 @lengthOf(
-f32a
-    )
-,i8 Pad // a // b
-@calculatedFrom(""a\\"") ,
-char charz`" ++ [28040; 24687; 31867; 22411]%N ++ runes_of_ascii "`,@calculatedFrom(	""" ++ [233]%N ++ runes_of_ascii "t" ++ [233]%N ++ runes_of_ascii """// c
-)
-@tag(4294967296 )rootA //
-msg_type
-    , @calculatedFrom(
-    ""CRC32"" //	t
-)	@tag( 007) @tag( 0
-    )
-uint8 A
-    `crlf
-line` ,
-    char[ 0123456789 ]// " ++ [128512]%N ++ runes_of_ascii " emoji
-repeatCount	`" ++ [233]%N ++ runes_of_ascii "`, packetx@lengthOf( tag
-)	`it's` , @lengthOf(// c
-leftPad  ) @calculatedFrom( ""\n""
-) @leftPad	( )Foo
-    @calculatedFrom( ""a\\"" ) `" ++ [28040; 24687; 31867; 22411]%N ++ runes_of_ascii "` ,} packet metadata
-{ packetx `" ++ [28040; 24687; 31867; 22411]%N ++ runes_of_ascii "`
-, u16 i64_
-@calculatedFrom( ""a\""b"" ) `
-`
-    ,}
-    //	t
-    packet falsey{ //
-@lengthOf(
-//
-// " ++ [128512]%N ++ runes_of_ascii " emoji
-int// @lengthOf(
-)
-// trailing space 
-// " ++ [27880; 37322]%N ++ runes_of_ascii "
-Packet  , @calculatedFrom(
-""packet"" ) @lengthOf( trueish
-    //	t
-    ) @leftPad // " ++ [128512]%N ++ runes_of_ascii " emoji
-()
-A repeatCount
-    ,A `
-`// " ++ [128512]%N ++ runes_of_ascii " emoji
-, repeat  trueish
-    `{ , }` , zchar[
-    /// triple
-    42
-/// triple
-//	t
-] rootA @lengthOf( A ),} root
-    packet u { repeat char[]i8i8 , @tag( 007) body
-    // c
-    { repeat u8x`tab	here`, } ,	@rightPad(
-    // @lengthOf(
-    '\x00'
-    ) i16
-matchKey`it's` ,@lengthOf( trueish
-)
-metadata  @lengthOf(
-lengthOf)
-    ,// `tick` ""quote"" 'q'
-int
-@calculatedFrom( ""`tick`"" ) ,@tag(
-3) match x_y_z	as BodyLength {1 //	t
-:options1
-//	t
-// c
-,
-    } , repeat i64_
-string_	,
-    //
-    u8 trueish , f64
-calculatedFrom ,}")).
-Eval vm_compute in ("<<<M911>>>" ++ check (runes_of_ascii "
-root
+Eval vm_compute in ("<<<M1>>>" ++ check (runes_of_ascii "
 packet
-    u
-{ @tag(
-    4294967296	) // packet A { u8 x, }
-@rightPad( '0' ) @tag(
-    7 ) repeat x , char[ // packet A { u8 x, }
-42	]
-charz
-    @lengthOf(Z9_) `line1
-line2`,zchar[ 65535 ] // `tick` ""quote"" 'q'
-crc @lengthOf( string_// a // b
-),
-    char[ 65535
-]// trailing space 
-trueish `crlf
-line` ,repeat x_y_z leftPad `" ++ [233]%N ++ runes_of_ascii "` ,T
-@calculatedFrom(
-""\n"")
-,  A ,
-char[]  crc @lengthOf( matchKey ) , repeat
-// @lengthOf(
-/// triple
-rootA // @lengthOf(
-`tab	here` , @rightPad
-//
-//	t
-( ' ' ) match roots as charz {
-""{,}""	: len ,
-    """" :
-Z9_ ,// trailing space 
-""abc""
-    : roots
-    ,
-} ,} packet _x {	@leftPad(// a // b
-'\x00' )
-    match tag	as u8x { """ ++ [128512]%N ++ runes_of_ascii """ : asx // packet A { u8 x, }
-, 4294967296
-:
-// a // b
-// `tick` ""quote"" 'q'
-u,
-    [
-""" ++ [28040; 24687]%N ++ runes_of_ascii """ , 7 , 7 ,
-    ""{,}"" , ""a	b"" //x
-]// `tick` ""quote"" 'q'
-:
-metadata
-    ,} ,
-match
-uint8x	as // a // b
-x_y_z // c
-{	[ 3 //x
-, 42
-    , // @lengthOf(
-""\" ++ [233]%N ++ runes_of_ascii """ ,""\" ++ [233]%N ++ runes_of_ascii """,
-""a	b"",007 ,42// packet A { u8 x, }
-, ""{,}"" // c
-]
-: u128
-    // trailing space 
-    , //	t
-""a\\""
-    : Foo
-,} ,i16 metadata,@leftPad ( ' '	)  u8 Logon
-// c
-// @lengthOf(
-`// not a comment` , Pad {
-zchar[  0//x
-] int @calculatedFrom( ""it's"" ) , } ,char[
-65535
-    // trailing space 
-    ]
-    //x
-    i8i8`crlf
-line` , string_
-, } packet x_y_z {u8 uint8x, match pack as Pad
-    { ""it's"" : asx ""`tick`"" :a1 , [  0
-    ] : // `tick` ""quote"" 'q'
-u128
-    , 42 : o
-    ,	""" ++ [128512]%N ++ runes_of_ascii """  :	tag // " ++ [27880; 37322]%N ++ runes_of_ascii "
-,	} , repeat
-i8
-    // packet A { u8 x, }
-    MetaDataX,@lengthOf( charz ) asx @lengthOf(
-    A
-) ,  @calculatedFrom(
-""{,}"" )@lengthOf( leftPad )@rightPad (
-) stringy
-    // @lengthOf(
-    Z9_ `` ,
-calculatedFrom `" ++ [28040; 24687; 31867; 22411]%N ++ runes_of_ascii "`, }	packet // " ++ [27880; 37322]%N ++ runes_of_ascii "
-matchKey {@calculatedFrom( ""\n"" ) f32 msg_type , zchar[	10	] chars ,}
-")).
-Eval vm_compute in ("<<<M3748>>>" ++ check (runes_of_ascii "packet
-uint8x 
-{ match
-    Pad as	// " ++ [128512]%N ++ runes_of_ascii " emoji
-
-repeatCount
-	{ [ 
-0 ]  :	lengthOf	,
-
-    [ 
-""// no comment"" ]
-:metadata 
-,}
-,
-metadata
-    // trailing space 
-	//
-  ,
-
-    zchar[ 	 /// triple
-  1 ]
-    trueish  //	t
-
-, 
-@calculatedFrom(  ""a\""b""
-)
-
-match	//x
-  roots
-
-as	f32a
-{
-4294967296  :i64_ 
-, 
-""it's""
-    : a1
-    ,[
-	// trailing space 
-    	00,  0123456789	]
-    : 
-As,
-    255:
-	Packet
-, ""{,}""
-:
-T/// triple
-	0 :  falsey	}
-    ,
-
-body@calculatedFrom( ""\n"" 
-    // trailing space 
-  ),	@calculatedFrom(
-
-""" ++ [128512]%N ++ runes_of_ascii """) @tag( 10
-
-)
-char[ 
-10] trueish  `doc` ,
-@tag(255
-    )
-	repeat  Z9_	{asx
-chars 
-`// not a comment`
-,
-}  ,  @lengthOf(
-Packet
-)
-u16 crc , } 
-	    // `tick` ""quote"" 'q'
-		options
-{ BodyLength = i32  ;  x 	 // " ++ [128512]%N ++ runes_of_ascii " emoji
-=255;
-u=3 
-}
-options{} packet
-	calculatedFrom { }  
-      //x
-	root 
-packet
-
-Header
-{
-
-Pad {
-repeatCount
-
-    ,	uint16 zchar
-, match
-
-msg_type
-	as pack
-
-    /// triple
-	{
-""abc""
-:repeatCount ,
-
-""{,}"" :
-
-repeatCount
-    ""a	b"": calculatedFrom  } ,repeat  string
-	Logon `a\`
-
-, }	, @lengthOf(
-x_y_z
-    )	match 
-tag  as
-    repeatCount {  007
-
-    :	BodyLength
-	, [ 
-        //	t
-      """ ++ [28040; 24687]%N ++ runes_of_ascii """
-] :BodyLength 42
+body { chars //x
+`two words` , match crc as	metadata {65535
     :
-string_""// no comment""  
-  // trailing space 
-	/// triple
-	:	//
-  	Z9_
-    ,
-	4294967296
-
-    : 
-
-// " ++ [128512]%N ++ runes_of_ascii " emoji
-  _x }
-,f64
-u `it's`	, 
-zchar[
-    00 ]
-	f32a
-
-    `doc`	,	match
-    i64_  as Logon{
-
-    4294967296 	 // a // b
-    :metadata , },
-	char[	1]Pad ,
-
-zchar[
-
-    0123456789 ] float// @lengthOf(
-    `` ,	}")).
-Eval vm_compute in ("<<<M875>>>" ++ check (runes_of_ascii "packet Z9_ {  @tag( 4294967296
-) char[255
-    ]msg_type @calculatedFrom(
-    ""abc""	),
-uint16 x  `" ++ [28040; 24687; 31867; 22411]%N ++ runes_of_ascii "`, @rightPad (
-'0' ) match len as Logon {
-    7 : metadata , ""{,}"": u8x
-,[ ""\n"", 65535 ,
-65535 ]
-// " ++ [128512]%N ++ runes_of_ascii " emoji
-// " ++ [27880; 37322]%N ++ runes_of_ascii "
-: int
-    ,""a\""b"" :	leftPad} , zchar[ 42] rootA, @calculatedFrom(
-// @lengthOf(
-// " ++ [128512]%N ++ runes_of_ascii " emoji
-""a\\"" ) zchar[42] A , Packet// trailing space 
-{
-    repeat //
-u128 {repeat
-chars{ tag  BodyLength , float32 calculatedFrom	`doc` ,match x as string_ {
-""{,}""
-:
-x """"
-: packetx	, } , }, } /// triple
-,  }
-// trailing space 
-/// triple
-,
-    // `tick` ""quote"" 'q'
-    @rightPad( ) options1
-`u8 x,`
-, repeat//
-i32 repeatCount,@lengthOf(Foo )@calculatedFrom( ""packet"" )int32 As
-    @lengthOf( Pad )
-, }
-packet As {@tag(  65535 /// triple
-)int asx
-    `line1
-line2` , @calculatedFrom( """ ++ [28040; 24687]%N ++ runes_of_ascii """) @rightPad (
-// " ++ [27880; 37322]%N ++ runes_of_ascii "
-//	t
-)int32
     // c
-    leftPad
-`" ++ [28040; 24687; 31867; 22411]%N ++ runes_of_ascii "` ,char[] zchar , string x_y_z
-,  f64
-// a // b
-/// triple
-repeatCount
-    @calculatedFrom(
-// trailing space 
+    trueish ""\" ++ [233]%N ++ runes_of_ascii """ : charz , ""abc""	: MetaDataX [""packet"" , ""// no comment"",0
+, 00
+,
+    ""// no comment"" ,""{,}"" , 00 ]:  i64_
 // @lengthOf(
-""x y"") ,
-    @leftPad () match falsey as
-int  { """ ++ [28040; 24687]%N ++ runes_of_ascii """ : MetaDataX 007
-: msg_type , ""CRC32""
-: Header ,//
-4294967296 : charz , 255
-:trueish
-    1  : Header , } ,@lengthOf(// packet A { u8 x, }
-leftPad // c
-)_x , }
-packet chars //
-{match string_ as A { /// triple
-""`tick`""
-: Foo ,  3:trueish
-    ,} ,
-match Header
-    as	repeatCount{ """ ++ [128512]%N ++ runes_of_ascii """
-: asx ,42	:leftPad , } , }
-")).
-Eval vm_compute in ("<<<M905>>>" ++ check (runes_of_ascii "  options	{
-    i64_ =
-    007; asx= ' '
-;/// triple
-}MetaData	tag { float32 uint8x , } packet  len { @tag( 7
-) repeat uint8x {
-    match zchar as	As { [ 00
-,""" ++ [28040; 24687]%N ++ runes_of_ascii """
-, 00 ,
-    0123456789 , 0 , 3 ,
-""\n""] :
-    // " ++ [128512]%N ++ runes_of_ascii " emoji
-    uint8x ,
-},} , u8x @lengthOf(
-    falsey ),
-    @calculatedFrom( // a // b
-""x y""
-) // `tick` ""quote"" 'q'
-int16 A `{ , }`
-    ,	lengthOf { o
-//x
-// " ++ [128512]%N ++ runes_of_ascii " emoji
-@lengthOf( repeatCount
-    ) ,
-uint16 // packet A { u8 x, }
-i8i8 @calculatedFrom( """ ++ [28040; 24687]%N ++ runes_of_ascii """ ) ,
-    char[ 42  ]
-repeatCount , }
-    ,@calculatedFrom(""{,}""
-)//
-repeat
-    BodyLength
-    ,
-char[]
-    lengthOf/// triple
-@calculatedFrom(""{,}""	)
-// `tick` ""quote"" 'q'
-// packet A { u8 x, }
-`
-`	, @tag(  00 )
-    repeat	u128
-`a\` , } options {
-}packet lengthOf { match MetaDataX as pack
-{[
-    ""\" ++ [233]%N ++ runes_of_ascii """ ] :	Packet // `tick` ""quote"" 'q'
-, 42 :
-lengthOf , ""// no comment"" : i64_ // @lengthOf(
-,
-    [ """ ++ [128512]%N ++ runes_of_ascii """
-    ,
-255
-    , ""abc""
-    , ""{,}"", ""{,}"" ,
-    1 ]
-    :Pad [ 3 // c
-, 3 , 255
-] : BodyLength	, }
 //	t
-// a // b
-, repeatCount	asx ,falsey ,zchar[ 0123456789 ]a1 @calculatedFrom( // " ++ [128512]%N ++ runes_of_ascii " emoji
-""it's""
-    ) `// not a comment`
-, @leftPad
-    // " ++ [27880; 37322]%N ++ runes_of_ascii "
-    ( '\x00' )f32a ,rootA@lengthOf( Pad ) ,
-    match As as int { 0: calculatedFrom ,}
-    ,
-    }
-
-")).
-Eval vm_compute in ("<<<M1024>>>" ++ check (runes_of_ascii "/// triple
-packet string_{ repeat As
-u128 ,
-    @lengthOf( Header  ) i8i8@lengthOf(len )`" ++ [28040; 24687; 31867; 22411]%N ++ runes_of_ascii "` , uint8x { match i8i8
-as// trailing space 
-msg_type
-{ 65535 :
-    Foo	, [ ""abc"" ,	00 ,
-    ""// no comment"" ,0 ,0123456789,
-    ""// no comment"" ]
-// `tick` ""quote"" 'q'
-// " ++ [128512]%N ++ runes_of_ascii " emoji
-:	int,
-""" ++ [128512]%N ++ runes_of_ascii """ : u8x , ""x y"" :x_y_z , 7
-    :
-len , 42 : As // c
-, } , } , @tag(
-    4294967296
-// packet A { u8 x, }
-// packet A { u8 x, }
-)zchar[
-    255
-] repeatCount , repeat int16 x ,u16 Foo `two words` ,repeat char[42 ] f32a ,string msg_type
-    /// triple
-    , @rightPad  (
-    ' ' ) Z9_@calculatedFrom(//
-""it's""	)  ,} packet stringy// packet A { u8 x, }
-{
-    // `tick` ""quote"" 'q'
-    float32 metadata ,}
-packet// @lengthOf(
-body{match leftPad
-as
-falsey { """ ++ [233]%N ++ runes_of_ascii "t" ++ [233]%N ++ runes_of_ascii """ :	len  ,
-} ,
-    // trailing space 
-    @calculatedFrom( ""CRC32""
-    ) f32a { uint32 body @lengthOf(
-    Z9_ ) /// triple
-`line1
-line2` ,
-    // @lengthOf(
-    f64 u `line1
-line2`, trueish @lengthOf( rootA )
-    ,char[ 255
-    ]	u@calculatedFrom( ""a	b""
-// `tick` ""quote"" 'q'
-// @lengthOf(
-) ,
-} , @tag(  42 )
-options1  a1
-    //
-    ,
-    char[]	Z9_	@calculatedFrom( ""\n""// c
-) , }
-//
-")).
-Eval vm_compute in ("<<<M812>>>" ++ check (runes_of_ascii "
-MetaData Packet //
-{ stringy body ,
-    //	t
-    x_y_z
-    matchKey , zchar[
-// " ++ [27880; 37322]%N ++ runes_of_ascii "
-// `tick` ""quote"" 'q'
-007 ] MetaDataX , // " ++ [128512]%N ++ runes_of_ascii " emoji
-u16 u128
-    `u8 x,`, stringy i64_
-    , char[]	Z9_  `two words` , } MetaData body { float32 Header
-    , }options
-    {trueish //x
-= false ; x_y_z = // c
-7 Packet =	false i8i8=
-//x
-// " ++ [128512]%N ++ runes_of_ascii " emoji
-zchar[255 ] tag =
-    char[] ; } packet// c
-crc { repeat  char[
-    0 ]
-    x ,
-    repeat float64 packetx , match	As as len{	[255 ]
-:
-Z9_
-    , // " ++ [27880; 37322]%N ++ runes_of_ascii "
-""{,}"" :
-//
-// " ++ [27880; 37322]%N ++ runes_of_ascii "
-MetaDataX ,  [ 00 , ""a	b"", 255 ] :Pad , 3:
-    body , }  , u128 @calculatedFrom(
-    ""CRC32"")  , // `tick` ""quote"" 'q'
-@tag(10) metadata {  repeat trueish x`line1
-line2`// " ++ [27880; 37322]%N ++ runes_of_ascii "
-,
-    u @calculatedFrom(""it's"" )
-, match
-// packet A { u8 x, }
-// " ++ [27880; 37322]%N ++ runes_of_ascii "
-trueish as _x { 42 :
-    /// triple
-    o [
-""CRC32""]
-: rootA  , } /// triple
-, } , tag
-    {Z9_{
-zchar[
-    // trailing space 
-    3  ]stringy`tab	here` , } , } //x
-, matchKey u8x,  repeat
-int64	metadata `{ , }`
-, @leftPad( '\x00')
-T int
-    , @calculatedFrom( ""abc"" ) zchar[ 4294967296 ] charz
-    ,// " ++ [128512]%N ++ runes_of_ascii " emoji
-}")).
-Eval vm_compute in ("<<<M367>>>" ++ check (runes_of_ascii "
-options {  Packet = ""packet""len
-=
-""packet"" ;
-    charz =true} packet calculatedFrom// c
-{
-//	t
-// a // b
-repeat// " ++ [27880; 37322]%N ++ runes_of_ascii "
-Packet, uint8x @calculatedFrom(
-// @lengthOf(
-// `tick` ""quote"" 'q'
-""\n""
-    ) , @calculatedFrom( ""// no comment""	)
-@rightPad /// triple
-(	' ') match
-    x
-//x
-//	t
-as Packet
-{
-00 : Pad [
-0	] :// @lengthOf(
-As , }
-,
-@lengthOf( chars )
-a1 `it's` , match Logon as int { ""packet"": int [ """ ++ [28040; 24687]%N ++ runes_of_ascii """ ,0123456789 // trailing space 
-, ""x y"" , 65535
-    //	t
-    ] : lengthOf, 10:asx, [  ""// no comment"" ] :  zchar, ""// no comment"": a1
-//
-// `tick` ""quote"" 'q'
-, 0 :len
-    ,} // " ++ [27880; 37322]%N ++ runes_of_ascii "
-,
-match u8x as
-    MetaDataX
-{
-    [
-255 ]
-    :
-string_ // packet A { u8 x, }
-, [ ""// no comment"" ,	""CRC32""]: metadata,// packet A { u8 x, }
-""a\""b""	:
-    // " ++ [27880; 37322]%N ++ runes_of_ascii "
-    leftPad }, Header `tab	here`, } packet u128 {
-    char[10//x
-] trueish `tab	here`, repeat asx {
-match
-len as chars {1 : MetaDataX ,
-42 :
-    roots ,
-    10:
-BodyLength,
-""// no comment"" :
-    o , ""a\\"" :	i64_ ,
-    }
-    ,	} ,
-    }
-")).
-Eval vm_compute in ("<<<M356>>>" ++ check (runes_of_ascii "packet
-Header { trueish @calculatedFrom(
-""a	b"")
-,
-    Header@calculatedFrom(
-    ""a\\"" //
-)
-,//	t
-@calculatedFrom(  ""a\\"" )/// triple
-i16	body
-@lengthOf( f32a  ) , // packet A { u8 x, }
-match // packet A { u8 x, }
-stringy as _x{ ""`tick`""
-// trailing space 
-//
-: string_ ,42:u8x , ""\n""
-    :
-    repeatCount, ""a\\"" : options1 ,	[ 4294967296 , ""{,}""
-/// triple
-//x
-,
-    4294967296 ,  """ ++ [28040; 24687]%N ++ runes_of_ascii """ , 3//	t
-,
-""abc"" ]
-:
-    //	t
-    u8x , } , zchar[0123456789
-    ] MetaDataX,@calculatedFrom(
-    ""x y"" //	t
-) @lengthOf( A )	zchar[ //x
-00 ] a1 , match
-// " ++ [128512]%N ++ runes_of_ascii " emoji
-// `tick` ""quote"" 'q'
-options1 as calculatedFrom // packet A { u8 x, }
-{
-    [ ""// no comment""
-    // " ++ [27880; 37322]%N ++ runes_of_ascii "
-    ,  ""abc"" , 65535,	""CRC32""
-, 0
-, ""CRC32"" ]
-: uint8x
-    , ""// no comment"" :
-// " ++ [128512]%N ++ runes_of_ascii " emoji
-// trailing space 
-chars	,	[ """ ++ [233]%N ++ runes_of_ascii "t" ++ [233]%N ++ runes_of_ascii """ , ""a	b"" ]
-    :
-    pack , 10 :	tag ,}  , @tag( 42 )repeat
-    // trailing space 
-    len,
-    @lengthOf( u )char[] f32a
-, // packet A { u8 x, }
-}
-")).
-Eval vm_compute in ("<<<M431>>>" ++ check (runes_of_ascii "// a // b
-packet
-body{ @lengthOf( tag
-    // trailing space 
-    ) char[
-255 ] Packet
-    , @leftPad
-() @rightPad ('0'
-) repeat Pad
-    { repeat char[007 ]	As ,
-    } ,
-match Header	as crc
-{007
-: Logon[""a\""b"" , 0
-] :_x,255
-:
-    _x// trailing space 
-, 3 :
-    pack
-,""a\\""	:
-    _x  , ""CRC32"" : repeatCount// trailing space 
-,
-}
-// `tick` ""quote"" 'q'
-// " ++ [128512]%N ++ runes_of_ascii " emoji
-,
-    @lengthOf( MetaDataX
-    )	charz
-    chars // @lengthOf(
-`it's` ,@tag(
-    10//
-) match a1 as x_y_z {
-    ""// no comment"":Foo
-    , [ ""// no comment"" ,10 ]
-: roots , } , }	packet options1 {
-}  packet asx { @rightPad (' '
-) match string_ as MetaDataX//x
-{[ 42 , // trailing space 
-3 ,  ""abc"" ,	7  ]: rootA
-, 0123456789 :BodyLength
-""abc"" :BodyLength , ""x y"" :
-    metadata ,}
-,}MetaData
-u128
-    { string  rootA	,	}
-MetaData _x {i8i8 matchKey `it's`
-//	t
-// a // b
-, uint32 len ,	tag options1 ,char[ 1
-    ] x,}")).
-Eval vm_compute in ("<<<M3962>>>" ++ check (runes_of_ascii "packet Pad {
-    @tag(65535)
-    repeat char[4294967296] o `u8 x,`,
-    @calculatedFrom(""x y"")
-    metadata @lengthOf(repeatCount) `tab	here`,
-}
-
-packet u128 {
-    // packet A { u8 x, }
-    // " ++ [128512]%N ++ runes_of_ascii " emoji
-    repeat zchar[10] _x,/// triple
-}
-
-options {
-    /// triple
-    msg_type = true;
-}
-
-packet tag {
-    // c
-    @tag(7)
-    i32 f32a @lengthOf(u8x) `two words`,
-    string Foo @lengthOf(Foo),
-    @rightPad('0')
-    match As as crc {
-        """" : float,
-        //	t
-    },
-    repeat i16 i8i8,
-    @rightPad('0')
-    repeat u128 {
-        i64 tag @calculatedFrom(""" ++ [28040; 24687]%N ++ runes_of_ascii """),
-        i8i8 @calculatedFrom(""{,}"") `it's`,
-        repeat string rootA,
-    },
-    repeat string chars,
-    asx,
-    match calculatedFrom as calculatedFrom {
-        ""a\""b"" : Logon,
-        ""a	b"" : asx,
-    },
-    char zchar @calculatedFrom(""1"") `say ""hi""`,
-}")).
-Eval vm_compute in ("<<<M1071>>>" ++ check (runes_of_ascii "packet Logon {string rootA	, rootA
-    {	match
-    repeatCount as int {
-    ""{,}"" :	zchar , 65535  : repeatCount // packet A { u8 x, }
-,
-// " ++ [128512]%N ++ runes_of_ascii " emoji
-/// triple
-007 //	t
-://
-i8i8 007 : x,007: matchKey
-, }  ,zchar[ 0123456789] float ,} ,uint64 // @lengthOf(
-string_	`// not a comment` ,	repeat MetaDataX ,	} options { Z9_= '0' ;
-    A // " ++ [128512]%N ++ runes_of_ascii " emoji
-= 1 ;x_y_z = true ;// a // b
-T = false  ;
-    }  packet crc{
-//x
-// `tick` ""quote"" 'q'
-@lengthOf(
-    repeatCount )
-    char[] calculatedFrom @lengthOf( lengthOf
-// @lengthOf(
-// " ++ [128512]%N ++ runes_of_ascii " emoji
-) `a\`
-, } packet Foo {
-    //
-    match uint8x as tag { [ 3 ,""`tick`"" ,	""packet""
-    , ""// no comment""
-// trailing space 
-// " ++ [27880; 37322]%N ++ runes_of_ascii "
-,	""a	b"" ,
-    007
-    ] :
-    Header	,
-7 :	_x , // a // b
-10 :
-    falsey ,
-""\n"" :
-    falsey	,255	: rootA , } ,
-    }
-
-")).
-Eval vm_compute in ("<<<M10>>>" ++ check (runes_of_ascii "
-options{
-crc
-// " ++ [128512]%N ++ runes_of_ascii " emoji
-// trailing space 
-= uint8} packet len {uint8x @calculatedFrom( ""x y"" ), @lengthOf(
-    rootA  )
-    @lengthOf( body
-// `tick` ""quote"" 'q'
-// `tick` ""quote"" 'q'
-)@calculatedFrom(  ""x y""
-) Packet  @calculatedFrom(// `tick` ""quote"" 'q'
-""\n"" )
-`
-`
-, Packet ,  repeat
-    // trailing space 
-    i8	Z9_ , @tag(255 )
-falsey `
-` ,	i64 int `line1
-line2` ,@calculatedFrom(
-    ""\n""
-// packet A { u8 x, }
-/// triple
-) @leftPad()
-@calculatedFrom(//	t
-""abc"" )// packet A { u8 x, }
-BodyLength ,uint8 u , @calculatedFrom(
-    ""a\""b""
-) @lengthOf( metadata ) @rightPad (' ') // packet A { u8 x, }
-char[10] f32a , }  packet repeatCount { }options  {
-string_ =  i32 ;
-o =	""a	b"" ;
-    i8i8	=
-    ""a\""b"" ; uint8x =
-uint16
-    // " ++ [128512]%N ++ runes_of_ascii " emoji
-    ;
-}")).
-Eval vm_compute in ("<<<M3783>>>" ++ check (runes_of_ascii "packet falsey {
-    uint64 calculatedFrom @lengthOf(msg_type),
-    i16 zchar,
-    f32 a1,
-    // " ++ [27880; 37322]%N ++ runes_of_ascii "
-    @calculatedFrom(""// no comment"")
-    a1 `say ""hi""`,
-    As Z9_,
-    // packet A { u8 x, }
-    repeatCount @lengthOf(uint8x),
-    u8 o @calculatedFrom(""`tick`"") `say ""hi""`,
-    f32 A @lengthOf(packetx) `line1
-        line2`,
-}
-
-MetaData len {
-    As rootA,
-    zchar[10] BodyLength `it's`,
-    int32 crc `
-        `,
-    zchar u8x,
-    leftPad BodyLength,
-}
-
-MetaData zchar {
-    options1 calculatedFrom,
-    zchar[7] trueish,
-}// " ++ [27880; 37322]%N ++ runes_of_ascii "
-
-root packet Foo {
-    @lengthOf(i8i8)
-    repeat zchar[255] u `// not a comment`,
-}
-
-MetaData int {
-    uint16 matchKey,
-    int16 x_y_z `say ""hi""`,
-    leftPad Logon,
-}")).
-Eval vm_compute in ("<<<M1298>>>" ++ check (runes_of_ascii "MetaData
-    Foo	{  }	packet x_y_z  {	a1
-    u8x, /// triple
-x
-`it's`
-    ,} packet
-    Foo
-{
-@lengthOf(
-    o) T @calculatedFrom( """ ++ [28040; 24687]%N ++ runes_of_ascii """ ) `two words`  ,
-@lengthOf( i8i8 ) repeat metadata{u
-{ repeat char[ 0
-]// trailing space 
-string_ ``, repeat
-body {
-    //
-    zchar[	0123456789	]
-Pad
-    ,
-    match
-Pad as matchKey{
-00
-:_x
+, """ ++ [233]%N ++ runes_of_ascii "t" ++ [233]%N ++ runes_of_ascii """ :f32a
 , [
-    65535 , 7 , 10 , 3// `tick` ""quote"" 'q'
-,// trailing space 
-""" ++ [128512]%N ++ runes_of_ascii """
-, 42
-, ""\" ++ [233]%N ++ runes_of_ascii """ ,""a	b""
-] : i8i8
-    , } ,	int8 charz , match packetx
-    as lengthOf	{
-    [
-    1/// triple
-, 4294967296
-, 1 ] :
-As
-},
+    """ ++ [128512]%N ++ runes_of_ascii """  , ""it's""
+]
+: Foo
 }
-    //
-    , repeat zchar[ 4294967296]_x
-, }, string o `` , }	, Header
-Header
+    ,@rightPad
+(  ' '
+    /// triple
+    ) repeat char[ 1]
+    body `it's`
+,
+@tag( 007) @calculatedFrom(
+    """ ++ [233]%N ++ runes_of_ascii "t" ++ [233]%N ++ runes_of_ascii """ )
+// @lengthOf(
+//
+@calculatedFrom( ""a\""b""// trailing space 
+)
+repeat
+i64_
+{ roots /// triple
+{ i16 // packet A { u8 x, }
+Header`two words`, repeatCount `{ , }`,  f64
+x @calculatedFrom( ""a	b"")
+    // a // b
+    ,repeatCount @calculatedFrom(// " ++ [27880; 37322]%N ++ runes_of_ascii "
+"""" ) ,} ,repeat u8
+BodyLength
+    `crlf
+line`	,
+    // `tick` ""quote"" 'q'
+    char As
+@lengthOf(
+    Foo) , } ,	char[] roots
+    `line1
+line2`,//
+int a1, string_{ char[]Logon `line1
+line2` , repeat float32 trueish
+    ,
+},
+@leftPad ( '0' ) repeat metadata  {	rootA@lengthOf( // trailing space 
+falsey	) ``
+    ,
+// " ++ [128512]%N ++ runes_of_ascii " emoji
+// packet A { u8 x, }
+} ,
+} packet float
+{u16
+// trailing space 
+// trailing space 
+Logon // a // b
+`tab	here`// @lengthOf(
+,
 // @lengthOf(
 // c
-`u8 x,`
-,charz
-    i8i8 `crlf
-line` ,}")).
-Eval vm_compute in ("<<<M4400>>>" ++ check (runes_of_ascii "packet A {
-    repeatCount {
-        // " ++ [27880; 37322]%N ++ runes_of_ascii "
-        repeat string falsey `" ++ [233]%N ++ runes_of_ascii "`,
-        x Z9_,
-        rootA repeatCount `a\`,
-        repeat char[] x_y_z ``,
-    },
-}
-
-root packet int {
-    @calculatedFrom(""\n"")
-    @calculatedFrom(""a\\"")
-    repeat lengthOf repeatCount `two words`,
-}
-
-root packet BodyLength {
-    @calculatedFrom(""`tick`"")
-    repeat asx {
-        zchar[10] MetaDataX,
-        repeat char[4294967296] rootA `say ""hi""`,
-        uint64 As `" ++ [233]%N ++ runes_of_ascii "`,
-        chars u,
-    },
-    @tag(0123456789)
-    @tag(0)
-    string roots `" ++ [28040; 24687; 31867; 22411]%N ++ runes_of_ascii "`,
-    u8 crc `{ , }`,// a // b
-    @calculatedFrom(""CRC32"")
-    repeat i64_ _x,
-    char Packet,
-}")).
-Eval vm_compute in ("<<<M269>>>" ++ check (runes_of_ascii "// trailing space 
-packet
+u128 {zchar[255
 // packet A { u8 x, }
-// packet A { u8 x, }
-o {
-@calculatedFrom(
-""`tick`""
-    //	t
-    )repeat i8 rootA
-, @calculatedFrom( ""`tick`""	)Logon
-body`line1
-line2` , // " ++ [128512]%N ++ runes_of_ascii " emoji
-@lengthOf(crc )@tag( 0
-) repeat
-falsey string_ , @calculatedFrom(
-"""" )
-    lengthOf/// triple
-, u16 calculatedFrom ,
-    i8i8//x
-tag `two words` , @tag( 1)	string rootA`u8 x,`
-,match pack as int { [
-""" ++ [233]%N ++ runes_of_ascii "t" ++ [233]%N ++ runes_of_ascii """
-, ""\" ++ [233]%N ++ runes_of_ascii """	, 10 ,  0,
-4294967296 , ""packet"" ,""" ++ [28040; 24687]%N ++ runes_of_ascii """
-,""" ++ [233]%N ++ runes_of_ascii "t" ++ [233]%N ++ runes_of_ascii """ ] : int
-//x
-// trailing space 
-, 3
-    :zchar , """ ++ [128512]%N ++ runes_of_ascii """
-:
-options1, 00 // c
-:x_y_z , 4294967296 :
-chars , } ,float32 matchKey
-    //x
-    ,
-T
-,}
-")).
-Eval vm_compute in ("<<<M3896>>>" ++ check (runes_of_ascii "// top
-packet P1 {
-    u8 a,// c5a
-    // c5b
-}
-
-packet P2 {
-    // c9
-    P1,// c11a
-    // c11b
-}
-
-// c12
-packet P3 {
-    // c15
-    P2,
-    // c17
-    P1,// c19
-}// c20a
-
-// c20b
-packet P4 {
-    // c23
-    repeat P3,
-    // c26
-    P2,
-    // c28
-}
-
-// c29
-root packet P5 {
-    // c33a
-    // c33b
-    P4,// c35a
-    // c35b
-    P3,// c37
-    P1,// c39
-    u8 K,
-    match K as Body {
-        // c47a
-        // c47b
-        4 : P4,
-        // c51a
-        // c51b
-        3 : P3,
-        // c55a
-        // c55b
-        2 : P2,
-        1 : P1,
-        // c63
-    },
-}
-// c66")).
-Eval vm_compute in ("<<<M42>>>" ++ check (runes_of_ascii "packet	BodyLength { repeat f32a Pad`// not a comment` ,
-// " ++ [128512]%N ++ runes_of_ascii " emoji
-// c
-}
-MetaData As { }options { crc
-    // packet A { u8 x, }
-    =
-""a\\""
-float= '\x00'
-    a1 // c
-= ' ';i8i8 =
-    4294967296
-}	packet u128 {
-// `tick` ""quote"" 'q'
 //
-match //x
-stringy as o{ ""`tick`""  : Foo  , [ 4294967296 ]	: x_y_z ,} ,zchar[ /// triple
-10 ] // `tick` ""quote"" 'q'
-Packet@lengthOf(u8x
-),
+]	charz`doc` , }
+,
+@tag(0 )	repeat Foo { i32 body
+    @calculatedFrom( ""`tick`"" )
+`" ++ [233]%N ++ runes_of_ascii "` ,} /// triple
+,char[] o @calculatedFrom(""1"" ) `line1
+line2` ,
 @lengthOf(
-roots) // " ++ [27880; 37322]%N ++ runes_of_ascii "
-x
-    `// not a comment` , i64
-    asx @lengthOf( rootA ) , metadata ,
-i64_ @calculatedFrom(  ""\" ++ [233]%N ++ runes_of_ascii """ ) ,	@lengthOf(u128
-) repeat o `two words` , }
+// a // b
+//x
+zchar) i16 BodyLength
+    @lengthOf(
+    // " ++ [27880; 37322]%N ++ runes_of_ascii "
+    BodyLength )
+    , @lengthOf( T) @rightPad(
+' ' )@lengthOf( T
+)
+repeat
+u64 _x// " ++ [27880; 37322]%N ++ runes_of_ascii "
+, match MetaDataX as // trailing space 
+options1// trailing space 
+{ //x
+0123456789 :
+    options1  , } , repeat u8 charz
+, repeat i8i8 {// c
+a1 ,len  { repeat string
+o	,
+    // a // b
+    } ,	match zchar
+as Logon {"""" : matchKey """ ++ [128512]%N ++ runes_of_ascii """	: u 007 :
+repeatCount ,}  , // c
+}
+    ,
+}
 ")).
-Eval vm_compute in ("<<<M1106>>>" ++ check (runes_of_ascii "packet string_  {
-BodyLength u128 ,
-}	MetaData
-matchKey
-{}
-packet f32a
-{
-    repeat uint32
-// trailing space 
+Eval vm_compute in ("<<<M174>>>" ++ check (runes_of_ascii "root
+packet charz {// a // b
+@rightPad
+    //	t
+    (
+) @lengthOf(
+    Pad ) @rightPad ( ' '
+) MetaDataX @lengthOf( BodyLength
+) `" ++ [28040; 24687; 31867; 22411]%N ++ runes_of_ascii "`
+,
+    repeatCount /// triple
+A
+`
+`,	@tag(
+    4294967296) // trailing space 
+metadata u8x ,
+    @calculatedFrom( ""packet"" ) repeat Pad // @lengthOf(
+`say ""hi""`
+,  } root packet// trailing space 
+rootA {// " ++ [27880; 37322]%N ++ runes_of_ascii "
+rootA	{ string trueish ,
+}
+    ,
+} MetaData
+lengthOf {
+    } packet _x { repeat msg_type { char[ 65535 ]
+crc ,	lengthOf
+    {
+    Packet ,
+    // c
+    string_
+    @calculatedFrom(""a\""b""),
+f32 rootA//
+,
+}	,
+// " ++ [27880; 37322]%N ++ runes_of_ascii "
 // `tick` ""quote"" 'q'
-matchKey
-,}
-    root packet trueish // `tick` ""quote"" 'q'
-{ leftPad
-    {match BodyLength as i8i8{255 : metadata
-""CRC32"" // `tick` ""quote"" 'q'
-: metadata ,
-""packet"" : a1 } ,}, } packet
-    asx { leftPad
-//	t
+} ,i16 int  , @lengthOf( matchKey) //	t
+i8i8 int `two words` ,
 // packet A { u8 x, }
-{
+// @lengthOf(
+repeat Logon{
+repeat
+    //	t
+    uint8	f32a ,
+    a1
+    //
+    { repeat char[1
+] Foo , }  , uint8x
+// @lengthOf(
+// packet A { u8 x, }
+{ char[ 4294967296 ]
+T `{ , }`
+, u32
+    repeatCount `" ++ [28040; 24687; 31867; 22411]%N ++ runes_of_ascii "`
+    // c
+    ,} , }
+    ,
+repeat MetaDataX
+, char[ 4294967296 ] i8i8//
+@lengthOf( _x ) ,}
+packet falsey {
+    tag
+{ char[ // " ++ [27880; 37322]%N ++ runes_of_ascii "
+00
     // `tick` ""quote"" 'q'
-    char[	10 ]options1	, char[ 4294967296
-    ]
-//	t
-//
-Packet	`a\` ,
-o `{ , }` , Z9_ {
-match Foo as	T
-    { 3 :
-a1 ,
-} , } ,} ,}
+    ] int@lengthOf( u128
+    ) ,
+}
+,roots body ,u16 stringy
+// trailing space 
+// @lengthOf(
+@lengthOf( Pad ) `line1
+line2` ,
+stringy
+@lengthOf(  chars ) ,uint8 lengthOf
+`" ++ [233]%N ++ runes_of_ascii "` ,
+    // " ++ [128512]%N ++ runes_of_ascii " emoji
+    }")).
+Eval vm_compute in ("<<<M1504>>>" ++ check (runes_of_ascii "// top
+packet // c0
+A // c1a
+  // c1b
+{
+    // c2
+u8
+    // c3
+a // c4a
+  // c4b
+, } packet // c7a
+  // c7b
+B // c8a
+  // c8b
+{ // c9a
+  // c9b
+u16
+    // c10
+b
+    // c11
+, // c12a
+  // c12b
+} packet
+    // c14
+C // c15a
+  // c15b
+{ // c16
+u32 c
+    // c18
+, // c19a
+  // c19b
+}
+    // c20
+root // c21
+packet // c22a
+  // c22b
+M
+    // c23
+{ // c24a
+  // c24b
+u16 // c25
+Kc // c26
+,
+    // c27
+u16
+    // c28
+Kb // c29
+, // c30a
+  // c30b
+u16
+    // c31
+Ka
+    // c32
+,
+    // c33
+match // c34
+Kc as
+    // c36
+X // c37
+{
+    // c38
+9 // c39
+:
+    // c40
+A
+    // c41
+, 10 // c43
+: // c44a
+  // c44b
+B // c45a
+  // c45b
+, // c46a
+  // c46b
+}
+    // c47
+, // c48a
+  // c48b
+match Kb // c50
+as Y // c52a
+  // c52b
+{ 2
+    // c54
+: // c55
+C
+    // c56
+, // c57
+1 : A // c60
+, // c61
+} // c62a
+  // c62b
+, match // c64a
+  // c64b
+Ka as
+    // c66
+Z
+    // c67
+{ // c68a
+  // c68b
+1 // c69a
+  // c69b
+: // c70a
+  // c70b
+B
+    // c71
+,
+    // c72
+} , // c74a
+  // c74b
+A // c75
+, // c76
+B , // c78a
+  // c78b
+C // c79a
+  // c79b
+, // c80a
+  // c80b
+} // c81
 ")).
-Eval vm_compute in ("<<<M3646>>>" ++ check (runes_of_ascii "options {
-    LittleEndian = false;
-    ArrayPrefixLenType = u64;
-    FixedStringPadChar = '0';
+Eval vm_compute in ("<<<M258>>>" ++ check (runes_of_ascii "
+packet leftPad
+    {}	packet u{@leftPad
+( ' ' )
+    char[65535 ]leftPad, int8
+packetx ,
+string stringy `crlf
+line` ,@leftPad
+( // @lengthOf(
+' ' // " ++ [27880; 37322]%N ++ runes_of_ascii "
+) // " ++ [128512]%N ++ runes_of_ascii " emoji
+i64 x
+@lengthOf( u )
+    `" ++ [28040; 24687; 31867; 22411]%N ++ runes_of_ascii "`	,@lengthOf( pack )
+// a // b
+//
+u64 asx  @lengthOf( repeatCount )
+    `u8 x,` , o A ,}	root packet charz{
+char[]repeatCount
+    //x
+    @lengthOf( tag ) ``
+,
+    repeat pack	`a\` , @calculatedFrom( ""// no comment""
+    //x
+    ) T { string rootA // " ++ [27880; 37322]%N ++ runes_of_ascii "
+@calculatedFrom(""{,}"" )  ,
+    }, repeat As
+    Foo
+, char[
+3] trueish ,@calculatedFrom(""""
+    )@lengthOf(
+metadata)@leftPad ('0'
+/// triple
+//x
+) repeat u64 float `{ , }`
+// " ++ [27880; 37322]%N ++ runes_of_ascii "
+// " ++ [128512]%N ++ runes_of_ascii " emoji
+, stringy {
+// packet A { u8 x, }
+// c
+metadata
+    { u8 f32a `two words` , repeat  char[ 007 ] f32a
+`
+` ,
+    } ,  u32 asx @calculatedFrom(""" ++ [233]%N ++ runes_of_ascii "t" ++ [233]%N ++ runes_of_ascii """
+) ,float64 i8i8 ,//x
+} ,
+// c
+// " ++ [27880; 37322]%N ++ runes_of_ascii "
+match lengthOf as zchar
+    /// triple
+    {
+    00 :o,  } , }")).
+Eval vm_compute in ("<<<M2034>>>" ++ check (runes_of_ascii "packet
+
+    BodyLength // " ++ [27880; 37322]%N ++ runes_of_ascii "
+{ char[  255// " ++ [27880; 37322]%N ++ runes_of_ascii "
+  ]_x,match
+
+body
+
+    as repeatCount
+
+    {""{,}"": len
+} ,
+
+    char[
+
+0]
+
+    Logon	@calculatedFrom( ""{,}""	)
+    , 
+// a // b
+  @rightPad	(
+	)i64_	//x
+  @calculatedFrom(
+
+    ""it's"" 
+) `crlf
+line`,} 
+packet	Header
+{ match
+As as chars {7 :
+	packetx
+
+    ,
+[
+    ""it's""
+
+]
+
+    :u128 ,[ 4294967296 
+, ""{,}"" ]
+    :	f32a ,  } ,
+} packet
+    asx
+    {
+	@calculatedFrom(
+	""1""
+)
+a1  
+  // @lengthOf(
+    	//
+    , 
+    //
+    	//x
+		match
+x_y_z as 
+crc	/// triple
+
+  { 
+	// `tick` ""quote"" 'q'
+	  // `tick` ""quote"" 'q'
+    	""CRC32""
+    : As , 7 : 
+o, //x
+} ,match
+    msg_type  as 
+Packet
+    {
+    """ ++ [233]%N ++ runes_of_ascii "t" ++ [233]%N ++ runes_of_ascii """ :
+metadata
+}
+
+    ,
+
+repeat u8
+    i64_
+,// a // b
+    }")).
+Eval vm_compute in ("<<<M1639>>>" ++ check (runes_of_ascii "root packet u128 {
+    @calculatedFrom(""// no comment"")
+    @tag(10)
+    @calculatedFrom(""packet"")
+    BodyLength ``,
+    char BodyLength `two words`,
+    repeat uint32 f32a,
+    crc {
+        repeat repeatCount Packet,
+        MetaDataX @lengthOf(chars),
+        options1 _x,
+        repeat float64 T,
+    },
+    @tag(3)
+    @leftPad('\x00')
+    @rightPad()
+    match string_ as MetaDataX {
+        ""packet"" : float,
+        [
+            ""abc"", """", 3, 65535, ""a	b"",
+            42, 1, ""packet""
+        ] : i64_,
+        // " ++ [27880; 37322]%N ++ runes_of_ascii "
+        // trailing space 
+        7 : lengthOf,
+        0 : len,
+        10 : len,
+        [0] : A,
+    },
+}")).
+Eval vm_compute in ("<<<M364>>>" ++ check (runes_of_ascii "
+packet chars  { repeat
+    u64 As`" ++ [233]%N ++ runes_of_ascii "` ,@tag( 0 )repeat
+T metadata
+    ``	,
+    }packet Z9_{
+    @rightPad
+    (//
+'0'
+    // " ++ [128512]%N ++ runes_of_ascii " emoji
+    )
+    match u as
+lengthOf
+    {
+""abc""/// triple
+: T
+, ""CRC32"" //x
+:  matchKey
+[ """ ++ [233]%N ++ runes_of_ascii "t" ++ [233]%N ++ runes_of_ascii """ ,  """ ++ [28040; 24687]%N ++ runes_of_ascii """, 65535, 65535 , ""x y""
+    ]
+: metadata""it's"" : i8i8, // packet A { u8 x, }
+255 : trueish , """":u128 ,	} , } MetaData u8x {
+zchar[ 255
+]  zchar ,
+    // `tick` ""quote"" 'q'
+    uint32 uint8x
+`" ++ [233]%N ++ runes_of_ascii "`, uint8 trueish ,
+    // packet A { u8 x, }
+    i64	falsey
+,
+_x MetaDataX ,string
+_x
+// trailing space 
+//
+, } //	t")).
+Eval vm_compute in ("<<<M1543>>>" ++ check (runes_of_ascii "options {
+    StringPrefixLenType = u8;
+    ArrayPrefixLenType = u32;
 }
 packet Quote {
-    repeat InFlags37 {
-        char[] lastPx,
+    u32 Ref,
+    InNote74 {
+        u8 pad0,
     },
-    i16 tag7,
-    char[] f1,
-    zchar[6] Note,
 }
-packet Order {
-    u8 Ref,
-    repeat Quote,
-    repeat string Acct,
+packet Ack {
+    repeat string OrderId,
 }
-root packet Heartbeat {
-    repeat Quote,
-    @leftPad('0') char[11] OrderId,
-    zchar[8] Ref,
-    u32 Flags,
-    u32 Tail @lengthOf(Body),
-    match Flags as Body {
-        156 : Order,
-        7 : Quote,
+packet Logout {
+    zchar[7] venue,
+    char[12] Px,
+    string count,
+    char[] Tail,
+    char[] Qty,
+    Quote,
+}
+root packet Trade {
+    zchar[2] price,
+    u32 x,
+    u32 lastPx @lengthOf(Body),
+    match x as Body {
+        148 : Ack,
+        171 : Quote,
+        15 : Logout,
     },
 }
 ")).
-Eval vm_compute in ("<<<M489>>>" ++ check (runes_of_ascii "//
-packet
-o {
-repeat
-chars//	t
-{ falsey leftPad `two words` , zchar[ 4294967296 ] packetx
-    @lengthOf( i64_ ) `
-` ,
-repeat msg_type
-    { zchar[ 007
-]	matchKey , i16 falsey@calculatedFrom( ""packet"" ) `crlf
-line` , }  ,
-} , @tag( 00 ) zchar[
-    007
-    ]
-    uint8x `u8 x,` //x
-, char metadata , //x
-match rootA
-// a // b
-// `tick` ""quote"" 'q'
-as
+Eval vm_compute in ("<<<M284>>>" ++ check (runes_of_ascii "MetaData
+Header { int64
 zchar
-{	10 :
-    float ,42:
-a1 ,
-    } , int  @lengthOf(Packet
-) , charz{i8i8 /// triple
-rootA//
-`doc` , }	,  } options { }
-")).
-Eval vm_compute in ("<<<M1222>>>" ++ check (runes_of_ascii "root packet metadata {
-@calculatedFrom( ""abc""
-    ) // a // b
-repeat charz	metadata `two words` , zchar[0 ]
-    packetx`u8 x,`, i16
-    Pad @lengthOf(
-BodyLength
-    )
-`a\`,string int @lengthOf(  leftPad )`a\` , char[] leftPad @calculatedFrom(	""1"" ) //	t
-, @lengthOf(u128)repeat char[ 10] A `{ , }`
-    , leftPad i64_ , @tag(007
-    )
-x u128 ,
-// packet A { u8 x, }
-// @lengthOf(
-uint32	options1	`it's`// packet A { u8 x, }
-,
-// packet A { u8 x, }
-//x
-}")).
-Eval vm_compute in ("<<<M869>>>" ++ check (runes_of_ascii "packet roots {
-    repeat u8x `two words` ,
-repeat roots // " ++ [128512]%N ++ runes_of_ascii " emoji
-{ // " ++ [27880; 37322]%N ++ runes_of_ascii "
-char[ 1 ] Z9_`it's`, // " ++ [128512]%N ++ runes_of_ascii " emoji
-char[ // trailing space 
-42
-] float`" ++ [28040; 24687; 31867; 22411]%N ++ runes_of_ascii "` ,
-    } , char[]	As  `a\` ,calculatedFrom {repeat uint64
-trueish , } , repeat i64
-MetaDataX ,
-repeat string uint8x `say ""hi""` , _x A
-`
-` , @lengthOf( // `tick` ""quote"" 'q'
-Packet )	@tag(7 )
-@leftPad ( // packet A { u8 x, }
-) Header { u128 , repeat
-    char[] trueish  `a\`, },
-    }
-")).
-Eval vm_compute in ("<<<M3898>>>" ++ check (runes_of_ascii "options {
-    tag = false;
-    charz = char[4294967296];
-    float = ' ';
-    u = zchar[255]
-    x = ""a\""b""
-}
-
-packet leftPad {
-    match As as falsey {
-        [
-            10, 0123456789, 007, """ ++ [28040; 24687]%N ++ runes_of_ascii """, ""packet"",
-            ""`tick`"", ""1""
-        ] : calculatedFrom,
-    },
-    @calculatedFrom(""it's"")
-    float64 x_y_z @lengthOf(leftPad),
-    trueish @lengthOf(packetx),
-}
-
-options {
-    string_ = ""a\""b"";
-    _x = false
-}")).
-Eval vm_compute in ("<<<M715>>>" ++ check (runes_of_ascii "MetaData  len{
-}
-packet BodyLength{ char[
-42
-    ]A@calculatedFrom(""// no comment"" ) `crlf
-line`// a // b
-,  match //
-Header as calculatedFrom {
-/// triple
-// packet A { u8 x, }
-""`tick`"" :
-//x
-//	t
-o
-,
-// packet A { u8 x, }
-// c
-},
-repeat packetx , }packet u { }packet
-x_y_z { @lengthOf( repeatCount
-    ) // trailing space 
-char[] charz @calculatedFrom(
-""it's"" ) `doc` , } packet	calculatedFrom {}
-")).
-Eval vm_compute in ("<<<M661>>>" ++ check (runes_of_ascii "MetaData u8x
-{ char[]a1 , int16 zchar `tab	here` , u16 charz `
-`, stringy Pad
-, i32 // @lengthOf(
-Header ,zchar[ 7// c
-]//	t
-crc , }options// packet A { u8 x, }
+`u8 x,` , Header u8x ,  zchar[ 65535]u ,	A options1
+`it's` , zchar[  007 ] MetaDataX , zchar[// `tick` ""quote"" 'q'
+0] As , }
+    MetaData Logon	{char[] rootA,
+} packet int
 {
-    } packet charz{ repeat int16 packetx
-, matchKey o ,
-@calculatedFrom( ""it's"" ) MetaDataX @lengthOf( tag)
-`a\`
-// trailing space 
-// " ++ [27880; 37322]%N ++ runes_of_ascii "
-, zchar[
-    255	] _x , i8	i64_ @lengthOf( Header
-    )
-    , } // trailing space ")).
-Eval vm_compute in ("<<<M3546>>>" ++ check (runes_of_ascii "// top
-packet
-    // c0
-B
-    // c1
-{ // c2
-u8 // c3
-a // c4
-, } // c6
-root packet
-    // c8
-P {
-    // c10
-u8 K , // c13a
-  // c13b
-u64
-    // c14
-L // c15a
-  // c15b
-@lengthOf(
-    // c16
-Body // c17
-)
-    // c18
-, match // c20a
-  // c20b
-K // c21a
-  // c21b
-as // c22a
-  // c22b
-Body
-    // c23
-{ 1 : // c26a
-  // c26b
-B , // c28a
-  // c28b
-} , // c30
-}
-    // c31
-")).
-Eval vm_compute in ("<<<M4316>>>" ++ check (runes_of_ascii "packet matchKey {
-    @calculatedFrom(""" ++ [28040; 24687]%N ++ runes_of_ascii """)
-    @lengthOf(lengthOf)
-    @calculatedFrom(""" ++ [28040; 24687]%N ++ runes_of_ascii """)
-    match trueish as options1 {
-        42 : matchKey,
-    },// " ++ [128512]%N ++ runes_of_ascii " emoji
-    i64 u8x,
-}
-
-MetaData float {
-    options1 u8x,
-    options1 x,
-    string u `it's`,
-    pack Header `u8 x,`,
-    char[] i64_,
-}
-
-options {
-}
-
-packet o {
-}//
-
-MetaData MetaDataX {
-}")).
-Eval vm_compute in ("<<<M622>>>" ++ check (runes_of_ascii "packet Pad
-    { @lengthOf(MetaDataX )
-roots a1	, }packet
-tag { uint8 packetx ,@calculatedFrom( """") @rightPad( )string Z9_ @calculatedFrom(""x y""
-/// triple
-// " ++ [27880; 37322]%N ++ runes_of_ascii "
-)`two words`
-,f32
-falsey
-    // packet A { u8 x, }
-    , }
-    //
-    root packet
-Pad { len Z9_
-, // " ++ [27880; 37322]%N ++ runes_of_ascii "
-@lengthOf( o
-    ) u32
-    x
-, A	`// not a comment` , // a // b
-}
-")).
-Eval vm_compute in ("<<<M1857>>>" ++ check (runes_of_ascii "MetaData MetaData
-    u { }  options {
-// c
-// @lengthOf(
-float = int8 ;rootA =false ; As =	int16 // `tick` ""quote"" 'q'
-repeatCount
-    // trailing space 
-    =
-    int16
-; u8x =
-    //	t
-    '\x00' ; } options	{
-    repeatCount
-= 0
-u128
-    //
-    = false ; i64_
-// trailing space 
-// `tick` ""quote"" 'q'
-= '0' ; //	t
-}
-")).
-Eval vm_compute in ("<<<M2023>>>" ++ check (runes_of_ascii "MetaData
-    u { }  options {
-// c
-// @lengthOf(
-float = int8 ;rootA =false ; As =	int16 // `tick` ""quote"" 'q'
-repeatCount
-    // trailing space 
-    =
-    int16
-; u8x =
-    //	t
-    '\x00' ; } options	{
-    repeatCount
-= 0
-u128
-    //
-    = MetaDataX ; i64_
-// trailing space 
-// `tick` ""quote"" 'q'
-= '0' ; //	t
-}
-")).
-Eval vm_compute in ("<<<M2008>>>" ++ check (runes_of_ascii "MetaData
-    u { }  options {
-// c
-// @lengthOf(
-float = int8 ;rootA =false ; As =	int16 // `tick` ""quote"" 'q'
-repeatCount
-    // trailing space 
-    =
-    int16
-; u8x =
-    //	t
-    '\x00' ; } options	{
-    repeatCount
-= f64
-u128
-    //
-    = false ; i64_
-// trailing space 
-// `tick` ""quote"" 'q'
-= '0' ; //	t
-}
-")).
-Eval vm_compute in ("<<<M1858>>>" ++ check (runes_of_ascii "u
-    MetaData { }  options {
-// c
-// @lengthOf(
-float = int8 ;rootA =false ; As =	int16 // `tick` ""quote"" 'q'
-repeatCount
-    // trailing space 
-    =
-    int16
-; u8x =
-    //	t
-    '\x00' ; } options	{
-    repeatCount
-= 0
-u128
-    //
-    = false ; i64_
-// trailing space 
-// `tick` ""quote"" 'q'
-= '0' ; //	t
-}
-")).
-Eval vm_compute in ("<<<M2002>>>" ++ check (runes_of_ascii "MetaData
-    u { }  options {
-// c
-// @lengthOf(
-float = int8 ;rootA =false ; As =	int16 // `tick` ""quote"" 'q'
-repeatCount
-    // trailing space 
-    =
-    int16
-; u8x =
-    //	t
-    '\x00' ; } options	{
-    repeatCount
-0 =
-u128
-    //
-    = false ; i64_
-// trailing space 
-// `tick` ""quote"" 'q'
-= '0' ; //	t
-}
-")).
-Eval vm_compute in ("<<<M2000>>>" ++ check (runes_of_ascii "MetaData
-    u { }  options {
-// c
-// @lengthOf(
-float = int8 ;rootA =false ; As =	int16 // `tick` ""quote"" 'q'
-repeatCount
-    // trailing space 
-    =
-    int16
-; u8x =
-    //	t
-    '\x00' ; } options	{
-    repeatCount
- 0
-u128
-    //
-    = false ; i64_
-// trailing space 
-// `tick` ""quote"" 'q'
-= '0' ; //	t
-}
-")).
-Eval vm_compute in ("<<<M551>>>" ++ check (runes_of_ascii "packet options1 {
-    @calculatedFrom(// trailing space 
-""" ++ [233]%N ++ runes_of_ascii "t" ++ [233]%N ++ runes_of_ascii """
-)
-@calculatedFrom(""packet"") repeat
-int16
-calculatedFrom
-,
-    @rightPad( ) Z9_
-// `tick` ""quote"" 'q'
-// `tick` ""quote"" 'q'
-@calculatedFrom( """ ++ [128512]%N ++ runes_of_ascii """ )
-`line1
-line2` , int64
-    rootA
-,
-_x@calculatedFrom( ""a	b""
-// `tick` ""quote"" 'q'
-//	t
-)
-    ,	}
-")).
-Eval vm_compute in ("<<<M435>>>" ++ check (runes_of_ascii "// " ++ [27880; 37322]%N ++ runes_of_ascii "
-packet// @lengthOf(
-roots {	int64 Packet ,}
-/// triple
-// c
-packet trueish
-    { @calculatedFrom(
-    """" )  msg_type @calculatedFrom(
-    ""a\""b"")  ,
-    // " ++ [27880; 37322]%N ++ runes_of_ascii "
-    u16 trueish
-, f32a	, uint64 //x
-lengthOf
-    @lengthOf( Foo
-) , }options { repeatCount = true ; x = false
-    chars=zchar[ 007]
-;}")).
-Eval vm_compute in ("<<<M3265>>>" ++ check (runes_of_ascii "// top
-MetaData
-    // c0
-float
-    // c1
-{
-    // c2
-float64
-    // c3
-charz
-    // c4
-`
-`
-    // c5
-,
-    // c6
-}
-    // c7
-root
-    // c8
-packet
-    // c9
-chars
-    // c10
-{
-    // c11
-@rightPad
-    // c12
-(
-    // c13
-'0'
-    // c14
-)
-    // c15
-Foo
-    // c16
-,
-    // c17
-}
-    // c18
-")).
-Eval vm_compute in ("<<<M556>>>" ++ check (runes_of_ascii "options {
-    uint8x= 3	;
-    crc= 42 Logon  = '\x00' falsey= false }  root
-    packet zchar {int16// trailing space 
-u, } root packet
-Header {@rightPad ( ' ' )@lengthOf( a1 )repeat body, zchar[
-65535 ] string_ // `tick` ""quote"" 'q'
-@lengthOf( MetaDataX ) , // @lengthOf(
-}
-")).
-Eval vm_compute in ("<<<M702>>>" ++ check (runes_of_ascii "packet float { @leftPad (' '
-)
-@calculatedFrom(// `tick` ""quote"" 'q'
-""a\""b"")@calculatedFrom( ""packet""
-) u32 msg_type
-//
-// a // b
-`" ++ [233]%N ++ runes_of_ascii "`	,
-@tag( 00 ) @rightPad (' ' )
-    repeat chars
-metadata// " ++ [128512]%N ++ runes_of_ascii " emoji
-,@rightPad ('0'	) tag string_	, repeat f64 int `u8 x,`  , }
-// c
-")).
-Eval vm_compute in ("<<<M73>>>" ++ check (runes_of_ascii "packet MetaDataX
-{ @calculatedFrom(
-    ""CRC32""
-    ) @tag(	255 //
-) zchar[ 007
-// c
-// trailing space 
-] Logon , } MetaData
-// " ++ [27880; 37322]%N ++ runes_of_ascii "
-// `tick` ""quote"" 'q'
-u8x{ char[0123456789
-    // @lengthOf(
-    ]	Foo , i64 x_y_z , o msg_type
-    , }
-// packet A { u8 x, }
-")).
-Eval vm_compute in ("<<<M1575>>>" ++ check (runes_of_ascii "packet
-//	t
-// trailing space 
-_x {
-// packet A { u8 x, }
-// c
-char[
-3
-    ] u8x @lengthOf(
-u8x ) , @calculatedFrom(""" ++ [128512]%N ++ runes_of_ascii """ // @lengthOf(
-)
-i16	Foo
-@lengthOf(	@lengthOf(
-    )`doc`	, repeat	i64 metadata , @lengthOf( string_
-) i8 // c
-u  `line1
-line2`	,
-}
-")).
-Eval vm_compute in ("<<<M1649>>>" ++ check (runes_of_ascii "packet
-//	t
-// trailing space 
-_x {
-// packet A { u8 x, }
-// c
-char[
-3
-    ] u8x @lengthOf(
-u8x ) , @calculatedFrom(""" ++ [128512]%N ++ runes_of_ascii """ // @lengthOf(
-)
-i16	Foo
-@lengthOf(	string_
-    )`doc`	, repeat	i64 metadata , @lengthOf( string_
-) i8 // c
-u  `line1
-line2`	,
-as
-")).
-Eval vm_compute in ("<<<M1569>>>" ++ check (runes_of_ascii "packet
-//	t
-// trailing space 
-_x {
-// packet A { u8 x, }
-// c
-char[
-3
-    ] u8x @lengthOf(
-u8x ) , @calculatedFrom(""" ++ [128512]%N ++ runes_of_ascii """ // @lengthOf(
-)
-i16	Foo
-string_	@lengthOf(
-    )`doc`	, repeat	i64 metadata , @lengthOf( string_
-) i8 // c
-u  `line1
-line2`	,
-}
-")).
-Eval vm_compute in ("<<<M1587>>>" ++ check (runes_of_ascii "packet
-//	t
-// trailing space 
-_x {
-// packet A { u8 x, }
-// c
-char[
-3
-    ] u8x @lengthOf(
-u8x ) , @calculatedFrom(""" ++ [128512]%N ++ runes_of_ascii """ // @lengthOf(
-)
-i16	Foo
-@lengthOf(	string_
-    )`doc`	 repeat	i64 metadata , @lengthOf( string_
-) i8 // c
-u  `line1
-line2`	,
-}
-")).
-Eval vm_compute in ("<<<M848>>>" ++ check (runes_of_ascii "packet// `tick` ""quote"" 'q'
-zchar { // c
-} MetaData Header {Z9_ // a // b
-pack , } MetaData asx { //	t
-u Header
-    ,
-    zchar[ 3
-    ]o
-,
-    As repeatCount
-`" ++ [28040; 24687; 31867; 22411]%N ++ runes_of_ascii "`	,
-//	t
-//	t
-rootA
-tag //x
-`u8 x,`
-    , float64 options1 , char[] uint8x , }
-")).
-Eval vm_compute in ("<<<M3266>>>" ++ check (runes_of_ascii "// top
-MetaData // c0a
-  // c0b
-float // c1
-{
-    // c2
-float64 // c3
-charz // c4a
-  // c4b
-`
-`
-    // c5
-,
-    // c6
-} root // c8
-packet // c9a
-  // c9b
-chars
-    // c10
-{ @rightPad ( '0' // c14
-)
-    // c15
-Foo
-    // c16
-,
-    // c17
-} ")).
-Eval vm_compute in ("<<<M301>>>" ++ check (runes_of_ascii "  MetaData // c
-crc
-{ i64 matchKey,
-    _x msg_type//
-, zchar zchar
-    ,
-    MetaDataX	matchKey
-    `a\` ,
-    u32 Header // " ++ [128512]%N ++ runes_of_ascii " emoji
-, } MetaData
-_x{
-    } root packet
-    calculatedFrom
-// `tick` ""quote"" 'q'
-// @lengthOf(
-{	}
-")).
-Eval vm_compute in ("<<<M2004>>>" ++ check (runes_of_ascii "MetaData
-    u { }  options {
-// c
-// @lengthOf(
-float = int8 ;rootA =false ; As =	int16 // `tick` ""quote"" 'q'
-repeatCount
-    // trailing space 
-    =
-    int16
-; u8x =
-    //	t
-    '\x00' ; } options	{
-    repeatCount")).
-Eval vm_compute in ("<<<M203>>>" ++ check (runes_of_ascii "packet u128  { @calculatedFrom(
-""a	b"" ) repeat  uint8x u128
-`line1
-line2`  , }
-    packet string_ { @calculatedFrom(
-// `tick` ""quote"" 'q'
-// packet A { u8 x, }
-""" ++ [128512]%N ++ runes_of_ascii """ )
-uint8 Pad
-    @lengthOf(
-    o )
-`{ , }`, }")).
-Eval vm_compute in ("<<<M1777>>>" ++ check (runes_of_ascii "options { trueish = ""`tick`"" ; string_= """ ++ [233]%N ++ runes_of_ascii "t" ++ [233]%N ++ runes_of_ascii """
-    // c
-    } root
-    packet body { stringy @calculatedFrom(
-""a	b"" ) `line1
-line2` , }
-packet packet Logon {
-    @leftPad(
-    ' ' ) //	t
-u16 string_ `u8 x,` ,
-}
-")).
-Eval vm_compute in ("<<<M4288>>>" ++ check (runes_of_ascii "root
-packet  Z9_ 
-{	repeatCount `a\`  ,
-
-    char[255 ]
-	Pad 
-`" ++ [28040; 24687; 31867; 22411]%N ++ runes_of_ascii "` 
-    // " ++ [27880; 37322]%N ++ runes_of_ascii "
-
-	,
-
-    char[ 	 // c
-  0	]
-    calculatedFrom
-`it's`
-	,MetaDataX msg_type
-`line1
-line2`	,  }
-
-    // packet A { u8 x, }
-")).
-Eval vm_compute in ("<<<M1789>>>" ++ check (runes_of_ascii "options { trueish = ""`tick`"" ; string_= """ ++ [233]%N ++ runes_of_ascii "t" ++ [233]%N ++ runes_of_ascii """
-    // c
-    } root
-    packet body { stringy @calculatedFrom(
-""a	b"" ) `line1
-line2` , }
-packet Logon i8
-    @leftPad(
-    ' ' ) //	t
-u16 string_ `u8 x,` ,
-}
-")).
-Eval vm_compute in ("<<<M1763>>>" ++ check (runes_of_ascii "options { trueish = ""`tick`"" ; string_= """ ++ [233]%N ++ runes_of_ascii "t" ++ [233]%N ++ runes_of_ascii """
-    // c
-    } root
-    packet body { stringy @calculatedFrom(
-""a	b"" ) , `line1
-line2` }
-packet Logon {
-    @leftPad(
-    ' ' ) //	t
-u16 string_ `u8 x,` ,
-}
-")).
-Eval vm_compute in ("<<<M1786>>>" ++ check (runes_of_ascii "options { trueish = ""`tick`"" ; string_= """ ++ [233]%N ++ runes_of_ascii "t" ++ [233]%N ++ runes_of_ascii """
-    // c
-    } root
-    packet body { stringy @calculatedFrom(
-""a	b"" ) `line1
-line2` , }
-packet Logon 
-    @leftPad(
-    ' ' ) //	t
-u16 string_ `u8 x,` ,
-}
-")).
-Eval vm_compute in ("<<<M1684>>>" ++ check (runes_of_ascii "options { = = ""`tick`"" ; string_= """ ++ [233]%N ++ runes_of_ascii "t" ++ [233]%N ++ runes_of_ascii """
-    // c
-    } root
-    packet body { stringy @calculatedFrom(
-""a	b"" ) `line1
-line2` , }
-packet Logon {
-    @leftPad(
-    ' ' ) //	t
-u16 string_ `u8 x,` ,
-}
-")).
-Eval vm_compute in ("<<<M3887>>>" ++ check (runes_of_ascii "
-
-  MetaData msg_type{
-	Packet
-	// @lengthOf(
-  // trailing space 
-	int	, 
-char[
-3
-]
-Foo
-	`// not a comment` 
-	    // `tick` ""quote"" 'q'
-, zchar[ 
-7 
-] uint8x
-
-    ,
-	leftPad
-crc	`
-` ,
-}")).
-Eval vm_compute in ("<<<M3694>>>" ++ check (runes_of_ascii "MetaData Header {
-    A float,
-}
-
-MetaData Pad {
-    // trailing space 
-    string float `a\`,
-    char[] tag,
-    // packet A { u8 x, }
-    matchKey BodyLength,
-    char[65535] Header,
-}")).
-Eval vm_compute in ("<<<M3684>>>" ++ check (runes_of_ascii "options{
-
-_x
-
-= true 
-} options{
-o
-    =  /// triple
-    false
-	;chars = ""\n""
-}  root packet
-
-Pad
-        /// triple
-	// packet A { u8 x, }
-
-{
-
-chars
-
-chars 
-  // a // b
-
-  , }
-
-")).
-Eval vm_compute in ("<<<M1290>>>" ++ check (runes_of_ascii "packet //	t
-u8x
-{ @leftPad (  '0' ) // trailing space 
-@calculatedFrom( ""1""  )
-@leftPad ('\x00' ) zchar[ 3
-]  zchar
-, // `tick` ""quote"" 'q'
-}options {
-    }
-// @lengthOf(
-")).
-Eval vm_compute in ("<<<M4078>>>" ++ check (runes_of_ascii "MetaData Foo {
-    zchar[10] i8i8,
-    zchar[1] zchar,
-    zchar lengthOf,
-    string metadata `tab	here`,
-    matchKey x,/// triple
-    f32 leftPad `it's`,
-    // c
-}")).
-Eval vm_compute in ("<<<M1007>>>" ++ check (runes_of_ascii "options  { x_y_z
-= uint32
-    ; x
-= false ;len
-= 0//
-; }
-root packet trueish {
-    // `tick` ""quote"" 'q'
-    @tag( 42// packet A { u8 x, }
-) matchKey string_,
-}
-")).
-Eval vm_compute in ("<<<M2387>>>" ++ check (runes_of_ascii "// c
-packet x { @lengthOf( metadata ) repeat lengthOf
-,a1 false
-trueish	,// c
-repeat//	t
-MetaDataX , } , zchar[
-    42	] rootA // `tick` ""quote"" 'q'
-,
-    }
-")).
-Eval vm_compute in ("<<<M548>>>" ++ check (runes_of_ascii "
-packet
-uint8x{
-    @tag( 65535	)
-char[
-    //
-    7 ] trueish
-@lengthOf( options1)
-    `{ , }` ,  } MetaData// @lengthOf(
-rootA { } root
-packet leftPad {}")).
-Eval vm_compute in ("<<<M2410>>>" ++ check (runes_of_ascii "// c
-packet x { @lengthOf( metadata ) repeat lengthOf
-,a1{
-trueish	?,// c
-repeat//	t
-MetaDataX , } , zchar[
-    42	] rootA // `tick` ""quote"" 'q'
-,
-    }
-")).
-Eval vm_compute in ("<<<M2380>>>" ++ check (runes_of_ascii "// c
-packet x { @lengthOf( metadata ) repeat lengthOf
-,a1{
-trueish	,// c
-repeat//	t
-MetaDataX , , } zchar[
-    42	] rootA // `tick` ""quote"" 'q'
-,
-    }
-")).
-Eval vm_compute in ("<<<M4449>>>" ++ check (runes_of_ascii "packet tag {
-    BodyLength @lengthOf(options1),
-}
-
-options {
-    trueish = ""a\\""
-    matchKey = 0123456789;
-    BodyLength = '\x00'
-    charz = """ ++ [233]%N ++ runes_of_ascii "t" ++ [233]%N ++ runes_of_ascii """;
-}")).
-Eval vm_compute in ("<<<M2359>>>" ++ check (runes_of_ascii "// c
-packet x { @lengthOf( metadata ) repeat lengthOf
-,a1{
-trueish	,// c
-repeat//	t
-MetaDataX , } , zchar[
-    42	] u64 // `tick` ""quote"" 'q'
-,
-    }
-")).
-Eval vm_compute in ("<<<M2167>>>" ++ check (runes_of_ascii "options{
-_x
-= true
-} options
-{ o	= /// triple
-false
-    ; chars
-= ""\n"" } root packet	=
-/// triple
-// packet A { u8 x, }
-{	chars
-    // a // b
-    ,}")).
-Eval vm_compute in ("<<<M4463>>>" ++ check (runes_of_ascii "
-root	packet
-
-matchKey 
-{ zchar[  3
-	]
-
-pack@calculatedFrom( ""a	b"" ) `doc` 
-,
-    }options {}
-
-    MetaData
-A
-
-    {
-
-int8 msg_type
-,// c
-  }
-
-")).
-Eval vm_compute in ("<<<M4038>>>" ++ check (runes_of_ascii "// top
-MetaData float {
-    // c2
-    float64 charz `
-    `,
-    // c6
-}
-
-root packet chars {
-    @rightPad('0')
-    // c15
-    Foo,
-    // c17
-}")).
-Eval vm_compute in ("<<<M4502>>>" ++ check (runes_of_ascii "  packet 
-A{
-match k as
-    n { 
-[ 
-1 ,22
-
-    , ""c c"" ,
-
-4  , 
-5
-    , 
-""f""
-
-, 7,
-8
-,
-    ""i"" ,10 ,
-
-    11 
-] : B
-,
-
-2	:
-	C
-    }
-	,
-}")).
-Eval vm_compute in ("<<<M564>>>" ++ check (runes_of_ascii "MetaData options1  { lengthOf As , char[ 255
-]crc
-    , char[] leftPad , As
-//	t
-//
-leftPad , uint16 u128 , f32 //
-x `{ , }` ,
-}
-//	t
-")).
-Eval vm_compute in ("<<<M298>>>" ++ check (runes_of_ascii "MetaData  metadata
-{	char[65535]	x ,
-    // c
-    char[]
-    u128, pack Z9_ , }
-    packet // " ++ [27880; 37322]%N ++ runes_of_ascii "
-a1{ repeat float repeatCount, }
-")).
-Eval vm_compute in ("<<<M4353>>>" ++ check (runes_of_ascii "MetaData metadata {
-    char[65535] x,
-    // c
-    char[] u128,
-    pack Z9_,
-}
-
-packet a1 {
-    repeat float repeatCount,
-}")).
-Eval vm_compute in ("<<<M3311>>>" ++ check (runes_of_ascii "
-// c
-root packet matchKey { zchar[ 3 ] pack @calculatedFrom( ""a	b"" ) `doc` , } options { } MetaData A { int8 msg_type , }")).
-Eval vm_compute in ("<<<M3330>>>" ++ check (runes_of_ascii "root packet matchKey { zchar[ 3 ] pack @calculatedFrom( ""a	b"" // c
-) `doc` , } options { } MetaData A { int8 msg_type , }")).
-Eval vm_compute in ("<<<M70>>>" ++ check (runes_of_ascii "
-options {  MetaDataX= ""\" ++ [233]%N ++ runes_of_ascii """ }options {
-// @lengthOf(
-//	t
-Logon = ""1""
-    x_y_z = 65535  } MetaData
-    //	t
-    u8x {}
-")).
-Eval vm_compute in ("<<<M3054>>>" ++ check (runes_of_ascii "packet A {
-    match k as n {
-        ""x\
-y"" : B,
-        [""x\
-y"", 1] : C,
-        [1,2,3,4,5,""x\
-y""] : D,
-    },
-}")).
-Eval vm_compute in ("<<<M307>>>" ++ check (runes_of_ascii "
-packet Logon // " ++ [27880; 37322]%N ++ runes_of_ascii "
-{f32 _x
-,} MetaData u8x {float32 leftPad, tag
-    leftPad `say ""hi""`
-    ,i16 tag `say ""hi""`,}
-")).
-Eval vm_compute in ("<<<M4507>>>" ++ check (runes_of_ascii "packet metadata {
-    // c
-    Logon {
-        A `" ++ [28040; 24687; 31867; 22411]%N ++ runes_of_ascii "`,
-        tag o,
-    },
-    zchar len `// not a comment`,
-}")).
-Eval vm_compute in ("<<<M1104>>>" ++ check (runes_of_ascii "root //	t
-packet roots { // " ++ [27880; 37322]%N ++ runes_of_ascii "
-} packet
-    matchKey {
-@calculatedFrom( ""a\""b"" )char[]tag // @lengthOf(
-, }
-")).
-Eval vm_compute in ("<<<M2985>>>" ++ check (runes_of_ascii "packet A {
-  match k as n {
-    [""a"", ""bb"", 007, ""d"", ""e"", 66, ""g"", ""h"", 9, ""j"", ""k""] : B,
-    2 : C
-  },
-}")).
-Eval vm_compute in ("<<<M3906>>>" ++ check (runes_of_ascii "
-packet metadata{	Logon {
-
+f32 falsey, } MetaData float { len
+leftPad ,
     A
+    Foo
+`tab	here`
+    , char[ 65535
+] T
+`line1
+line2` ,	} options // " ++ [128512]%N ++ runes_of_ascii " emoji
+{
+// " ++ [128512]%N ++ runes_of_ascii " emoji
+// " ++ [27880; 37322]%N ++ runes_of_ascii "
+float
+    ='0'
+//x
+// a // b
+;float
+= true
+    ;	Foo = ""\n""}")).
+Eval vm_compute in ("<<<M74>>>" ++ check (runes_of_ascii "root packet x	{ @calculatedFrom(""a\\"" ) zchar[42 ]float @calculatedFrom(""a\""b""  ) `
+` ,
+    } MetaData o
+    {
+int8
+BodyLength,string len ,
+    string len , float falsey ,T float
+    , }	MetaData pack { /// triple
+charz o
+`// not a comment`	,	float64 f32a `tab	here`  , int32  u8x  `// not a comment` ,char[10 ]
+a1
+, float32 options1  ,
+} // `tick` ""quote"" 'q'")).
+Eval vm_compute in ("<<<M38>>>" ++ check (runes_of_ascii "  packet
+    i64_
+    {
+    Z9_ @lengthOf(
+charz)	`doc`
+    , Pad {  body @lengthOf( string_ ) //
+`say ""hi""`	, uint64 metadata@lengthOf(Logon )`say ""hi""` ,
+    zchar[ 3
+    ] f32a`{ , }` ,repeat uint8	leftPad
+/// triple
+/// triple
+,  }
+,char[] _x @lengthOf( As)
+    `
+` ,  char[ 65535
+    ]matchKey  `// not a comment`
+,}")).
+Eval vm_compute in ("<<<M1511>>>" ++ check (runes_of_ascii "  packet
 
-`" ++ [28040; 24687; 31867; 22411]%N ++ runes_of_ascii "`
-,
-	tag	o , },zchar len
+    MDSnapshotZZ
 
-`// not a comment`
-    , // c
+{
+
+u8  a
+	,
+
+}
+	packet OrderACK
+    {
+u16 b	, 
+} 
+packet
+	HTTPServerInfo	{
+
+    string
+s ,
+
     }
 
+root packet FIXMsg{
+u8 KType,  MDSnapshotZZ ,
+
+    repeat OrderACK,
+
+    match KType
+	as	Body{  1 :
+HTTPServerInfo
+
+,
+	2 :
+    OrderACK  ,}
+    ,}
+
 ")).
-Eval vm_compute in ("<<<M4419>>>" ++ check (runes_of_ascii "options {
-    _x = true
+Eval vm_compute in ("<<<M586>>>" ++ check (runes_of_ascii "root packet tag { }  packet MetaDataX{char[007	]
+// c
+/// triple
+asx  @calculatedFrom( ""a\""b""
+) `say ""hi""`// " ++ [27880; 37322]%N ++ runes_of_ascii "
+,  @tag(4294967296 )
+    char[packetx//x
+] packetx @calculatedFrom(""a\""b""
+    ) ,
+// " ++ [128512]%N ++ runes_of_ascii " emoji
+// a // b
+@calculatedFrom(""" ++ [233]%N ++ runes_of_ascii "t" ++ [233]%N ++ runes_of_ascii """  ) repeat pack // " ++ [27880; 37322]%N ++ runes_of_ascii "
+,
+    } // c")).
+Eval vm_compute in ("<<<M584>>>" ++ check (runes_of_ascii "root packet tag { }  packet MetaDataX{char[007	]
+// c
+/// triple
+asx  @calculatedFrom( ""a\""b""
+) `say ""hi""`// " ++ [27880; 37322]%N ++ runes_of_ascii "
+,  @tag(4294967296 )
+    char[1 1//x
+] packetx @calculatedFrom(""a\""b""
+    ) ,
+// " ++ [128512]%N ++ runes_of_ascii " emoji
+// a // b
+@calculatedFrom(""" ++ [233]%N ++ runes_of_ascii "t" ++ [233]%N ++ runes_of_ascii """  ) repeat pack // " ++ [27880; 37322]%N ++ runes_of_ascii "
+,
+    } // c")).
+Eval vm_compute in ("<<<M670>>>" ++ check (runes_of_ascii "root packet tag { }  packet MetaDataX{char[007	]
+// c""
+/// triple
+asx  @calculatedFrom( ""a\""b""
+) `say ""hi""`// " ++ [27880; 37322]%N ++ runes_of_ascii "
+,  @tag(4294967296 )
+    char[1//x
+] packetx @calculatedFrom(""a\""b""
+    ) ,
+// " ++ [128512]%N ++ runes_of_ascii " emoji
+// a // b
+@calculatedFrom(""" ++ [233]%N ++ runes_of_ascii "t" ++ [233]%N ++ runes_of_ascii """  ) repeat pack // " ++ [27880; 37322]%N ++ runes_of_ascii "
+,
+    } // c")).
+Eval vm_compute in ("<<<M635>>>" ++ check (runes_of_ascii "root packet tag { }  packet MetaDataX{char[007	]
+// c
+/// triple
+asx  @calculatedFrom( ""a\""b""
+) `say ""hi""`// " ++ [27880; 37322]%N ++ runes_of_ascii "
+,  @tag(4294967296 )
+    char[1//x
+] packetx @calculatedFrom(""a\""b""
+    ) ,
+// " ++ [128512]%N ++ runes_of_ascii " emoji
+// a // b
+@calculatedFrom(""" ++ [233]%N ++ runes_of_ascii "t" ++ [233]%N ++ runes_of_ascii """  ) pack repeat // " ++ [27880; 37322]%N ++ runes_of_ascii "
+,
+    } // c")).
+Eval vm_compute in ("<<<M523>>>" ++ check (runes_of_ascii "root packet tag { }  packet MetaDataX{char[	]
+// c
+/// triple
+asx  @calculatedFrom( ""a\""b""
+) `say ""hi""`// " ++ [27880; 37322]%N ++ runes_of_ascii "
+,  @tag(4294967296 )
+    char[1//x
+] packetx @calculatedFrom(""a\""b""
+    ) ,
+// " ++ [128512]%N ++ runes_of_ascii " emoji
+// a // b
+@calculatedFrom(""" ++ [233]%N ++ runes_of_ascii "t" ++ [233]%N ++ runes_of_ascii """  ) repeat pack // " ++ [27880; 37322]%N ++ runes_of_ascii "
+,
+    } // c")).
+Eval vm_compute in ("<<<M541>>>" ++ check (runes_of_ascii "root packet tag { }  packet MetaDataX{char[007	]
+// c
+/// triple
+asx  root ""a\""b""
+) `say ""hi""`// " ++ [27880; 37322]%N ++ runes_of_ascii "
+,  @tag(4294967296 )
+    char[1//x
+] packetx @calculatedFrom(""a\""b""
+    ) ,
+// " ++ [128512]%N ++ runes_of_ascii " emoji
+// a // b
+@calculatedFrom(""" ++ [233]%N ++ runes_of_ascii "t" ++ [233]%N ++ runes_of_ascii """  ) repeat pack // " ++ [27880; 37322]%N ++ runes_of_ascii "
+,
+    } // c")).
+Eval vm_compute in ("<<<M2055>>>" ++ check (runes_of_ascii "root packet tag {
 }
 
-options {
-    o = false;
-    chars = ""\n""
-}
+packet MetaDataX {
+    char[007] asx @calculatedFrom(""a\""b""),
+    @tag(4294967296)
+    char[1] packetx @calculatedFrom(""a\""b""),
+    // " ++ [128512]%N ++ runes_of_ascii " emoji
+    // a // b
+    @calculatedFrom(""" ++ [233]%N ++ runes_of_ascii "t" ++ [233]%N ++ runes_of_ascii """)
+    repeat pack,
+}// c")).
+Eval vm_compute in ("<<<M117>>>" ++ check (runes_of_ascii "root packet // packet A { u8 x, }
+f32a
+{ @lengthOf( int )char[]
+    //x
+    o, a1 @lengthOf( packetx
+) // " ++ [27880; 37322]%N ++ runes_of_ascii "
+`u8 x,`
+/// triple
+/// triple
+,
+// " ++ [128512]%N ++ runes_of_ascii " emoji
+// @lengthOf(
+@calculatedFrom( ""1""
+)u8
+Header ,
+    }")).
+Eval vm_compute in ("<<<M617>>>" ++ check (runes_of_ascii "root packet tag { }  packet MetaDataX{char[007	]
+// c
+/// triple
+asx  @calculatedFrom( ""a\""b""
+) `say ""hi""`// " ++ [27880; 37322]%N ++ runes_of_ascii "
+,  @tag(4294967296 )
+    char[1//x
+] packetx @calculatedFrom(""a\""b""
+    )")).
+Eval vm_compute in ("<<<M701>>>" ++ check (runes_of_ascii "root packet len // trailing space 
+{
+// " ++ [27880; 37322]%N ++ runes_of_ascii "
+//	t
+char[10
+] metadata	@lengthOf( o ) `crlf
+line`,
+    @rightPad
+( ' '
+) string
+    Header @calculatedFrom( ""a\\"" ""a\\""
+    ), }
+")).
+Eval vm_compute in ("<<<M455>>>" ++ check (runes_of_ascii "packet
+    // `tick` ""quote"" 'q'
+    crc
+// packet A { u8 x, }
+//	t
+{
+u32 a1 ,
+    // trailing space 
+    roots
+charz //
+`two words`,	}
+    MetaData int {
+} } /// triple")).
+Eval vm_compute in ("<<<M411>>>" ++ check (runes_of_ascii "packet
+    // `tick` ""quote"" 'q'
+    crc
+// packet A { u8 x, }
+//	t
+{
+u32 a1 roots
+    // trailing space 
+    ,
+charz //
+`two words`,	}
+    MetaData int {
+} /// triple")).
+Eval vm_compute in ("<<<M454>>>" ++ check (runes_of_ascii "packet
+    // `tick` ""quote"" 'q'
+    crc
+// packet A { u8 x, }
+//	t
+{
+u32 a1 ,
+    // trailing space 
+    roots
+charz //
+`two words`,	}
+    MetaData int {
+ /// triple")).
+Eval vm_compute in ("<<<M700>>>" ++ check (runes_of_ascii "root packet len // trailing space 
+{
+// " ++ [27880; 37322]%N ++ runes_of_ascii "
+//	t
+char[10
+] metadata	@lengthOf( o ) `crlf
+line`,
+    @rightPad
+( ' '
+) 3
+    Header @calculatedFrom( ""a\\""
+    ), }
+")).
+Eval vm_compute in ("<<<M1873>>>" ++ check (runes_of_ascii "
+packet A {
 
-root packet Pad {
-    chars,
-}")).
-Eval vm_compute in ("<<<M4215>>>" ++ check (runes_of_ascii "options {
-    _x = true
-}
+match	k
+	as n	{ [
+""a"" ,
+""bb""  , 
+""c c"" ,  ""d""
 
-options {
-    o = u64;
-    chars = ""\n""
-}
+, ""e""
+    ,""f""
+    ,
+    ""g""
 
-root packet Pad {
-    chars,
-}")).
-Eval vm_compute in ("<<<M3016>>>" ++ check (runes_of_ascii "packet A {
-    Inner {
-        u8 x `
-`,
-        Deep {
-            u8 y `
-`,
-        },
+    , 
+""h"" , 
+""i"" , 
+""j"",
+    ""k""
+
+,
+
+""l""
+	] :B 
+2
+
+:
+
+C} 
+, }")).
+Eval vm_compute in ("<<<M1792>>>" ++ check (runes_of_ascii "packet A {
+    match k as n {
+        [
+            1, ""bb"", 007, ""d"", 5,
+            ""f"", 7, ""h"", 9, ""j""
+        ] : B,
+        2 : C,
     },
 }")).
-Eval vm_compute in ("<<<M2327>>>" ++ check (runes_of_ascii "// c
-packet x { @lengthOf( metadata ) repeat lengthOf
-,a1{
-trueish	,// c
-repeat//	t
-MetaDataX")).
-Eval vm_compute in ("<<<M2925>>>" ++ check (runes_of_ascii "packet A {
+Eval vm_compute in ("<<<M438>>>" ++ check (runes_of_ascii "packet
+    // `tick` ""quote"" 'q'
+    crc
+// packet A { u8 x, }
+//	t
+{
+u32 a1 ,
+    // trailing space 
+    roots
+charz //
+`two words`,")).
+Eval vm_compute in ("<<<M1776>>>" ++ check (runes_of_ascii "packet A {
+    u16 len @lengthOf(body) `a
+    
+    b`,
+    u32 crc @calculatedFrom(""CRC32"") `a
+    
+    b`,
+    string body,
+}")).
+Eval vm_compute in ("<<<M1233>>>" ++ check (runes_of_ascii "root packet matchKey { zchar[ 3 // c
+] pack @calculatedFrom( ""a	b"" ) `doc` , } options { } MetaData A { int8 msg_type , }")).
+Eval vm_compute in ("<<<M1265>>>" ++ check (runes_of_ascii "root packet matchKey { zchar[ 3 ] pack @calculatedFrom( ""a	b"" ) `doc` , } options { } MetaData A { int8 msg_type // c
+, }")).
+Eval vm_compute in ("<<<M2128>>>" ++ check (runes_of_ascii "
+packet o
+    {repeat 
+Logon
+
+    uint8x  
+  // c
+
+,
+
+    }options{ asx = zchar[3	]
+    stringy
+    = '\x00' }
+
+")).
+Eval vm_compute in ("<<<M1602>>>" ++ check (runes_of_ascii "packet
+
+o
+
+{
+	repeat
+Logon uint8x  ,
+
+    }
+options
+    { asx = zchar[3 ]	stringy 
+  // c
+  = '\x00'
+    }
+")).
+Eval vm_compute in ("<<<M876>>>" ++ check (runes_of_ascii "packet A {
   match k as n {
-    [""a"", ""bb"", ""c c"", ""d"", ""e"", ""f"", ""g""] : B,
+    [""a"", ""bb"", ""c c"", ""d"", ""e"", ""f"", ""g"", ""h"", ""i"", ""j""] : B
     2 : C
   },
 }")).
-Eval vm_compute in ("<<<M2942>>>" ++ check (runes_of_ascii "packet A {
+Eval vm_compute in ("<<<M1889>>>" ++ check (runes_of_ascii "packet A {
+    u32 crc @calculatedFrom(""x\
+        y""),
+    @calculatedFrom(""x\
+        y"")
+    u8 y,
+}")).
+Eval vm_compute in ("<<<M880>>>" ++ check (runes_of_ascii "packet A {
+  match k as n {
+    [""a"", 22, ""c c"", 4, ""e"", 66, ""g"", 8, ""i"", 10] : B
+    2 : C
+  },
+}")).
+Eval vm_compute in ("<<<M2096>>>" ++ check (runes_of_ascii "// c
+packet o {
+    repeat Logon uint8x,
+}
+
+options {
+    asx = zchar[3]
+    stringy = '\x00'
+}")).
+Eval vm_compute in ("<<<M853>>>" ++ check (runes_of_ascii "packet A {
   match k as n {
     [""a"", 22, ""c c"", 4, ""e"", 66, ""g"", 8] : B,
     2 : C
   },
 }")).
-Eval vm_compute in ("<<<M3278>>>" ++ check (runes_of_ascii "MetaData float { float64 charz
+Eval vm_compute in ("<<<M1192>>>" ++ check (runes_of_ascii "MetaData float { float64 charz `
+` , // c
+} root packet chars { @rightPad ( '0' ) Foo , }")).
+Eval vm_compute in ("<<<M1403>>>" ++ check (runes_of_ascii "packet chars { }
 // c
-`
-` , } root packet chars { @rightPad ( '0' ) Foo , }")).
-Eval vm_compute in ("<<<M3489>>>" ++ check (runes_of_ascii "packet chars { // c
-} packet MetaDataX { @tag( 42 ) i16 string_ , repeat x `say ""hi""` , }")).
-Eval vm_compute in ("<<<M4023>>>" ++ check (runes_of_ascii "MetaData	body  { i64
-pack `it's` , } packet
-	stringy{ 	 // c
-int16  calculatedFrom
-	, } ")).
-Eval vm_compute in ("<<<M2295>>>" ++ check (runes_of_ascii "options
-{ } options { BodyLength= u16 Header= f64 ; u128 =
-    true
-    ; } //' a // b")).
-Eval vm_compute in ("<<<M2218>>>" ++ check (runes_of_ascii "options
-{ options } { BodyLength= u16 Header= f64 ; u128 =
-    true
-    ; } // a // b")).
-Eval vm_compute in ("<<<M3229>>>" ++ check (runes_of_ascii "packet metadata { Logon { A `" ++ [28040; 24687; 31867; 22411]%N ++ runes_of_ascii "` , tag // c
-o , } , zchar len `// not a comment` , }")).
-Eval vm_compute in ("<<<M2261>>>" ++ check (runes_of_ascii "options
-{ } options { BodyLength= u16 Header= f64  u128 =
-    true
-    ; } // a // b")).
-Eval vm_compute in ("<<<M3452>>>" ++ check (runes_of_ascii "packet o { repeat Logon uint8x , } options { asx =
-// c
-zchar[ 3 ] stringy = '\x00' }")).
-Eval vm_compute in ("<<<M270>>>" ++ check (runes_of_ascii "MetaData _x{ } packet calculatedFrom {
-}MetaData
-_x	{i32
-    body
-    , uint8 x , }")).
-Eval vm_compute in ("<<<M3395>>>" ++ check (runes_of_ascii "MetaData
-// c
-body { i64 pack `it's` , } packet stringy { int16 calculatedFrom , }")).
-Eval vm_compute in ("<<<M4589>>>" ++ check (runes_of_ascii "packet zchar {
-    @lengthOf(i8i8)
-    int16 msg_type @lengthOf(As) `
-        `,
+packet MetaDataX { @tag( 42 ) i16 string_ , repeat x `say ""hi""` , }")).
+Eval vm_compute in ("<<<M845>>>" ++ check (runes_of_ascii "packet A {
+  match k as n {
+    [""a"", ""bb"", 007, ""d"", ""e"", 66, ""g""] : B
+    2 : C
+  },
 }")).
-Eval vm_compute in ("<<<M1456>>>" ++ check (runes_of_ascii "
-packet
-    falsey { Header@calculatedFrom(""packet""  ) , char[
-    0123456789 ]")).
-Eval vm_compute in ("<<<M1470>>>" ++ check (runes_of_ascii "
-packet
-    falsey { Header@calculatedFrom(""packet""  ) , char[
-    012345678")).
-Eval vm_compute in ("<<<M1291>>>" ++ check (runes_of_ascii "
-root packet charz
-    { @rightPad ( '0' )
-_x	@lengthOf( asx
-) `" ++ [233]%N ++ runes_of_ascii "`
-, }
-")).
-Eval vm_compute in ("<<<M882>>>" ++ check (runes_of_ascii "packet// " ++ [27880; 37322]%N ++ runes_of_ascii "
-pack {
-    //	t
-    repeat zchar As
-    , i16 roots ,
-    }")).
-Eval vm_compute in ("<<<M1511>>>" ++ check (runes_of_ascii "packet
-//	t
-// trailing space 
-_x {
-// packet A { u8 x, }
+Eval vm_compute in ("<<<M1133>>>" ++ check (runes_of_ascii "packet metadata { Logon {
 // c
-char[")).
-Eval vm_compute in ("<<<M3797>>>" ++ check (runes_of_ascii "MetaData pack {
-    // " ++ [27880; 37322]%N ++ runes_of_ascii "
-    string float,
-    char[] options1,
+A `" ++ [28040; 24687; 31867; 22411]%N ++ runes_of_ascii "` , tag o , } , zchar len `// not a comment` , }")).
+Eval vm_compute in ("<<<M964>>>" ++ check (runes_of_ascii "packet A {
+    u32 crc @calculatedFrom(""x\
+y""),
+    @calculatedFrom(""x\
+y"") u8 y,
 }")).
-Eval vm_compute in ("<<<M2293>>>" ++ check (runes_of_ascii "options
-{ } options { BodyLength= u16 Header= f64 ; u128 =
-   ")).
-Eval vm_compute in ("<<<M2909>>>" ++ check (runes_of_ascii "packet A { Inner { match k as n { [1,22,007,4,5] : B, }, }, }")).
-Eval vm_compute in ("<<<M1295>>>" ++ check (runes_of_ascii "options { matchKey
-= 0 Header =
-// " ++ [128512]%N ++ runes_of_ascii " emoji
-// c
-""CRC32"" }
+Eval vm_compute in ("<<<M1370>>>" ++ check (runes_of_ascii "packet o { repeat Logon uint8x , } options { asx = zchar[ 3 ] stringy // c
+= '\x00' }")).
+Eval vm_compute in ("<<<M369>>>" ++ check (runes_of_ascii "MetaData repeatCount
+    {
+    } options { // packet A { u8 x, }
+}
+// @lengthOf(
 ")).
-Eval vm_compute in ("<<<M3386>>>" ++ check (runes_of_ascii "packet x { @rightPad ( ) repeat roots Logon `doc` ,
-// c
+Eval vm_compute in ("<<<M1331>>>" ++ check (runes_of_ascii "MetaData body { i64 pack `it's` , } packet stringy { int16 calculatedFrom , // c
 }")).
-Eval vm_compute in ("<<<M444>>>" ++ check (runes_of_ascii "// trailing space 
-options{	tag =""1""	; } // @lengthOf(")).
-Eval vm_compute in ("<<<M1215>>>" ++ check (runes_of_ascii "root packet calculatedFrom { char[] trueish `
-` ,}
-")).
-Eval vm_compute in ("<<<M4147>>>" ++ check (runes_of_ascii "root packet 
-u128
+Eval vm_compute in ("<<<M1741>>>" ++ check (runes_of_ascii "packet A 
+{match
+k as n{ 
+[""a""
+	,""bb""  ,007
+, ""d""
+]:
 
-{ chars `it's`	, 
-  // c
+B
+2
+	: C
+
+    }	,
+} ")).
+Eval vm_compute in ("<<<M885>>>" ++ check (runes_of_ascii "packet A { Inner { match k as n { [1,22,007,4,5,66,7,8,9,10] : B, }, }, }")).
+Eval vm_compute in ("<<<M1478>>>" ++ check (runes_of_ascii "root packet P {
+    u16 a,
+    u32 Sum @calculatedFrom(""CR\
+C32""),
 }
 ")).
-Eval vm_compute in ("<<<M177>>>" ++ check (runes_of_ascii "root packet
-repeatCount{ } // trailing space ")).
-Eval vm_compute in ("<<<M2602>>>" ++ check (runes_of_ascii "packet A { B { match k as n { 1 : C }, }, }")).
-Eval vm_compute in ("<<<M3204>>>" ++ check (runes_of_ascii "root packet u128 { chars `it's` , }
+Eval vm_compute in ("<<<M321>>>" ++ check (runes_of_ascii "MetaData // " ++ [128512]%N ++ runes_of_ascii " emoji
+Header { // trailing space 
+u64 falsey ,
+}")).
+Eval vm_compute in ("<<<M759>>>" ++ check (runes_of_ascii "u8 u16 int8 repeat , `it's` true match `a\` root false char")).
+Eval vm_compute in ("<<<M1291>>>" ++ check (runes_of_ascii "packet x { @rightPad ( ) repeat roots
 // c
-")).
-Eval vm_compute in ("<<<M4200>>>" ++ check (runes_of_ascii "MetaData f32a {
-    char[42] zchar,//x
-}")).
-Eval vm_compute in ("<<<M2615>>>" ++ check (runes_of_ascii "packet A { match as as n { 1 : B }, }")).
-Eval vm_compute in ("<<<M789>>>" ++ check (runes_of_ascii "root packet MetaDataX {	} // a // b")).
-Eval vm_compute in ("<<<M2768>>>" ++ check (runes_of_ascii "cbXYPX~e2)CI,UYRj(FHGR'\b#6AQ*Q<F\")).
-Eval vm_compute in ("<<<M2123>>>" ++ check (runes_of_ascii "options{
-_x
-= true
-} options
-{ o")).
-Eval vm_compute in ("<<<M4538>>>" ++ check (runes_of_ascii "options {
-    zchar = '\x00';
-}")).
-Eval vm_compute in ("<<<M3947>>>" ++ check (runes_of_ascii "
+Logon `doc` , }")).
+Eval vm_compute in ("<<<M1440>>>" ++ check (runes_of_ascii "root packet P
+	{
 
-  packet A {}
-	    // c" ++ [8232]%N ++ runes_of_ascii "
- 
-")).
-Eval vm_compute in ("<<<M118>>>" ++ check (runes_of_ascii "options{
-i64_ = ""`tick`""}
+    repeat char cs, u8 x
+
+,  }
 
 ")).
-Eval vm_compute in ("<<<M2594>>>" ++ check (runes_of_ascii "packet A { u8 x @tag(1), }")).
-Eval vm_compute in ("<<<M3260>>>" ++ check (runes_of_ascii "root packet pack { // c
+Eval vm_compute in ("<<<M112>>>" ++ check (runes_of_ascii "MetaData crc { uint8x float
+,}
+// @lengthOf(
+")).
+Eval vm_compute in ("<<<M31>>>" ++ check (runes_of_ascii "root
+packet uint8x {}root packet  Pad
+{}")).
+Eval vm_compute in ("<<<M371>>>" ++ check (runes_of_ascii "//
+packet u8x{
+    }	packet
+    crc { }")).
+Eval vm_compute in ("<<<M761>>>" ++ check (runes_of_ascii "z;iRL9nW5y;Gl&OOeJQ#l^I{o>x:,gyNu{")).
+Eval vm_compute in ("<<<M169>>>" ++ check (runes_of_ascii "packet
+body { // @lengthOf(
 }")).
-Eval vm_compute in ("<<<M2580>>>" ++ check (runes_of_ascii "packet A { char[ 3 y, }")).
-Eval vm_compute in ("<<<M2706>>>" ++ check ([65533; 65533; 15; 65533]%N ++ runes_of_ascii "L" ++ [1963; 65533]%N ++ runes_of_ascii "B" ++ [65533; 26]%N ++ runes_of_ascii "h%" ++ [20]%N ++ runes_of_ascii "B" ++ [65533]%N ++ runes_of_ascii "k" ++ [65533]%N ++ runes_of_ascii "4" ++ [65533; 65533; 65533]%N)).
-Eval vm_compute in ("<<<M4591>>>" ++ check (runes_of_ascii "root packet i64_ {
-}")).
-Eval vm_compute in ("<<<M3476>>>" ++ check (runes_of_ascii "MetaData o { // c
-}")).
-Eval vm_compute in ("<<<M3105>>>" ++ check (runes_of_ascii "packet A {
+Eval vm_compute in ("<<<M1700>>>" ++ check (runes_of_ascii "root
+packet pack {
+}  // c
+")).
+Eval vm_compute in ("<<<M1706>>>" ++ check (runes_of_ascii "root packet pack {
 }
-// c" ++ [8239]%N)).
-Eval vm_compute in ("<<<M2658>>>" ++ check (runes_of_ascii "options { a = ; }")).
-Eval vm_compute in ("<<<M2660>>>" ++ check (runes_of_ascii "options { a 1; }")).
-Eval vm_compute in ("<<<M416>>>" ++ check (runes_of_ascii "
-options { }
-")).
-Eval vm_compute in ("<<<M2369>>>" ++ check (runes_of_ascii "// c
-packet")).
-Eval vm_compute in ("<<<M2466>>>" ++ check (runes_of_ascii "metadata")).
-Eval vm_compute in ("<<<M2434>>>" ++ check (runes_of_ascii "zchar[")).
-Eval vm_compute in ("<<<M2474>>>" ++ check (runes_of_ascii "'\x0'")).
-Eval vm_compute in ("<<<M2443>>>" ++ check (runes_of_ascii "uint")).
-Eval vm_compute in ("<<<M2472>>>" ++ check (runes_of_ascii "' '")).
-Eval vm_compute in ("<<<M1001>>>" ++ check (runes_of_ascii "  ")).
-Eval vm_compute in ("<<<M2674>>>" ++ check (runes_of_ascii "}")).
+// c")).
+Eval vm_compute in ("<<<M1383>>>" ++ check (runes_of_ascii "MetaData // c
+o { }")).
+Eval vm_compute in ("<<<M1022>>>" ++ check (runes_of_ascii "// c" ++ [8287]%N ++ runes_of_ascii "
+packet A {
+}")).
+Eval vm_compute in ("<<<M1039>>>" ++ check (runes_of_ascii "packet A {
+}// c" ++ [8203]%N)).
+Eval vm_compute in ("<<<M743>>>" ++ check (runes_of_ascii "char[] (")).
+Eval vm_compute in ("<<<M1045>>>" ++ check (runes_of_ascii "// c" ++ [65279]%N)).
